@@ -1,4 +1,5 @@
 import MLPE.Proofs.EngTasks
+import MLPE.Props.C13
 import MLPE.PlainSpec
 import MLPE.Proofs.EngC04
 import MLPE.Proofs.Retry
@@ -23,7 +24,6 @@ structure PlainP (P : Program) (d : DagRef) : Prop where
   noHead   : ∀ n, P.g.isOneofHead n = false
   noRecur  : ∀ n kw i k v, P.body n kw i k = .ret v → v.isRecur = false ∧ v.isExc = false
   noRecurD : ∀ n kw, (P.dflt n kw).isRecur = false ∧ (P.dflt n kw).isExc = false
-  noCb     : ∀ k n, P.cbYield k n = 0
   pools    : P.poolsOk = true
   main     : ∀ s : St, (∀ n, s.opened n = false) → reducedRef P s P.g.input P.g.output false false false = some d
   dest     : d.dest = some P.g.output
@@ -103,6 +103,85 @@ structure Att (P : Program) (val : Node → Option Val) (n : Node) (k : Nat) (kw
 /-- value tracking is conditional on `val` being a solution (so that the liveness theorems need none) -/
 def Track (P : Program) (d : DagRef) (val : Node → Option Val) (X : Prop) : Prop := Solution P d val → X
 
+/-- the result of `n` is stored **and announced**: its task has finished (the `finally` notifications of `_run_node`
+are sent in the task's last section; while the artifact store is still saving, the result is stored but nobody has been
+told yet) -/
+def Settled (s : St) (n : Node) : Prop :=
+  (s.res n).isSome = true ∧ ∃ (i : Nat) (tk : Task), s.tasks[i]? = some tk ∧ tk.name = .node n ∧ tk.isDone = true
+
+/-- every source of `m` is settled -/
+def ReadyA (P : Program) (s : St) (m : Node) : Prop := ∀ p ∈ P.g.preds m, Settled s p
+
+theorem not_settled_of_res_none {s : St} {n : Node} (h : s.res n = none) : ¬ Settled s n := by
+  intro ⟨h1, _⟩; rw [h] at h1; simp at h1
+
+theorem not_readyA_of_not_readyP {P : Program} {s : St} {m : Node} (h : (P.g.preds m).all (fun p => (s.res p).isSome) = false) :
+    ¬ ReadyA P s m := by
+  intro hra
+  rw [List.all_eq_false] at h
+  obtain ⟨p, hp, hpr⟩ := h
+  exact hpr (hra p hp).1
+
+/-- `Settled` only looks at the results and at the (name, finished) pairs of the tasks -/
+theorem settled_mono {s s' : St} (hr : s'.res = s.res)
+    (ht : ∀ (j : Nat) (tk' : Task), s'.tasks[j]? = some tk' → tk'.isDone = true →
+      ∀ n, tk'.name = .node n → ∃ (j0 : Nat) (tk : Task), s.tasks[j0]? = some tk ∧ tk.name = .node n ∧ tk.isDone = true)
+    (n : Node) (h : Settled s' n) : Settled s n := by
+  obtain ⟨h1, j, tk', hj, hnm, hdn⟩ := h
+  obtain ⟨j0, tk, a, b, c⟩ := ht j tk' hj hdn n hnm
+  exact ⟨by rw [← hr]; exact h1, j0, tk, a, b, c⟩
+
+theorem settled_setTask {s : St} (t : Nat) (tk' : Task) (hnd : tk'.isDone = false) (n : Node)
+    (h : Settled (s.setTask t tk') n) : Settled s n := by
+  refine settled_mono (s := s) (s' := s.setTask t tk') rfl ?_ n h
+  intro j tk hj hdn m hnm
+  by_cases hjt : j = t
+  · subst hjt
+    simp only [St.setTask] at hj
+    by_cases hlt : j < s.tasks.length
+    · rw [List.getElem?_set_self hlt] at hj; cases hj; rw [hnd] at hdn; cases hdn
+    · rw [List.getElem?_eq_none (by simp; omega)] at hj; cases hj
+  · simp only [St.setTask, List.getElem?_set_ne (Ne.symm hjt)] at hj
+    exact ⟨j, tk, hj, hnm, hdn⟩
+
+theorem settled_setTask_name {s : St} (t : Nat) (tk' : Task) (hnm : ∀ m, tk'.name ≠ .node m) (n : Node)
+    (h : Settled (s.setTask t tk') n) : Settled s n := by
+  refine settled_mono (s := s) (s' := s.setTask t tk') rfl ?_ n h
+  intro j tk hj hdn m hm
+  by_cases hjt : j = t
+  · subst hjt
+    simp only [St.setTask] at hj
+    by_cases hlt : j < s.tasks.length
+    · rw [List.getElem?_set_self hlt] at hj; cases hj; exact absurd hm (hnm m)
+    · rw [List.getElem?_eq_none (by simp; omega)] at hj; cases hj
+  · simp only [St.setTask, List.getElem?_set_ne (Ne.symm hjt)] at hj
+    exact ⟨j, tk, hj, hm, hdn⟩
+
+theorem settled_spawn {s : St} (fs : List Frame) (nm : TaskName) (n : Node) (h : Settled (spawn s fs nm).1 n) :
+    Settled s n := by
+  refine settled_mono (s := s) (s' := (spawn s fs nm).1) rfl ?_ n h
+  intro j tk hj hdn m hm
+  simp only [spawn] at hj
+  by_cases hlt : j < s.tasks.length
+  · rw [List.getElem?_append_left hlt] at hj; exact ⟨j, tk, hj, hm, hdn⟩
+  · rw [List.getElem?_append_right (by omega)] at hj
+    by_cases h0 : j - s.tasks.length = 0
+    · rw [h0] at hj; simp at hj; subst hj; simp [Task.isDone] at hdn
+    · rw [List.getElem?_eq_none (by simp; omega)] at hj; cases hj
+
+theorem settled_map {s s' : St} (F : Task → Task) (hr : s'.res = s.res) (ht : s'.tasks = s.tasks.map F)
+    (hF : ∀ tk, (F tk).name = tk.name ∧ ((F tk).isDone = true → tk.isDone = true)) (n : Node) (h : Settled s' n) :
+    Settled s n := by
+  refine settled_mono hr ?_ n h
+  intro j tk' hj hdn m hm
+  rw [ht, List.getElem?_map] at hj
+  cases hs : s.tasks[j]? with
+  | none => simp [hs] at hj
+  | some tk =>
+    simp only [hs, Option.map_some, Option.some.injEq] at hj
+    subst hj
+    exact ⟨j, tk, hs, by rw [← (hF tk).1]; exact hm, (hF tk).2 hdn⟩
+
 /-! ### per-task predicates -/
 
 /-- a node task of node `n`, before the caller has left -/
@@ -125,6 +204,21 @@ inductive NodeTaskOK (P : Program) (d : DagRef) (val : Node → Option Val) (s :
   | slept (k : Nat) (kw : Kwargs) (inv : Nat) :
       s.proc n = true → s.res n = none → Track P d val (Att P val n (k + 1) kw inv) →
       NodeTaskOK P d val s n { frames := [.node d n false (.sleep k kw inv)], st := .runnable .go, name := .node n }
+  | cbStart (j : Nat) (inv : Nat) :      -- suspended in on_node_start
+      s.proc n = true → s.res n = none → (∀ p ∈ P.g.preds n, (s.res p).isSome = true) → inv = 0 →
+      NodeTaskOK P d val s n { frames := [.node d n false (.cbStart j inv)], st := .runnable .go, name := .node n }
+  | cbRetry (j : Nat) (k : Nat) (kw : Kwargs) (inv : Nat) :      -- suspended in on_node_complete(error) before a retry
+      s.proc n = true → s.res n = none → Track P d val (Att P val n (k + 1) kw inv) →
+      NodeTaskOK P d val s n { frames := [.node d n false (.cbRetry j k kw inv)], st := .runnable .go, name := .node n }
+  | cbOk (j : Nat) (v : Val) :      -- suspended in on_node_complete(None): the value is not stored yet
+      s.proc n = true → s.res n = none → (v.isRecur = false ∧ v.isExc = false) → Track P d val (val n = some v) →
+      NodeTaskOK P d val s n { frames := [.node d n false (.cbOk j v)], st := .runnable .go, name := .node n }
+  | cbFail (j : Nat) (e : Exc) :      -- suspended in the final on_node_complete(error)
+      s.proc n = true → s.res n = none → Track P d val (NodeFails P val n e) →
+      NodeTaskOK P d val s n { frames := [.node d n false (.cbFail j e)], st := .runnable .go, name := .node n }
+  | cbSave (j : Nat) :      -- suspended in artifact_store.save: the value is stored, nobody has been notified yet
+      s.proc n = true → (s.res n).isSome = true → Track P d val (val n = s.res n) →
+      NodeTaskOK P d val s n { frames := [.node d n false (.cbSave j)], st := .runnable .go, name := .node n }
   | doneOk :
       s.proc n = true → (s.res n).isSome = true → Track P d val (val n = s.res n) →
       NodeTaskOK P d val s n { frames := [], st := .done .ok, name := .node n }
@@ -144,13 +238,13 @@ inductive MainOK (P : Program) (d : DagRef) (s : St) (launched : List Node) : Ta
       TopoOrd P d (launched ++ rest) →
       MainOK P d s launched { frames := [.dagLaunch d rest], st := .runnable .go, name := .run }
   | waitNode (m : Node) (rest : List Node) :
-      TopoOrd P d (launched ++ m :: rest) → readyP P s m = false →
+      TopoOrd P d (launched ++ m :: rest) → ¬ ReadyA P s m →
       MainOK P d s launched { frames := [.dagLaunch d (m :: rest)], st := .blocked (.cond (.node m)), name := .run }
   | waitingDest :
       TopoOrd P d launched →
       MainOK P d s launched { frames := [.dagWaitDest d], st := .runnable .go, name := .run }
   | waitDest :
-      TopoOrd P d launched → s.res P.g.output = none →
+      TopoOrd P d launched → ¬ Settled s P.g.output →
       MainOK P d s launched { frames := [.dagWaitDest d], st := .blocked (.cond (.node P.g.output)), name := .run }
   | done :
       TopoOrd P d launched → (s.res P.g.output).isSome = true →
@@ -186,11 +280,14 @@ inductive CallerOK (P : Program) (s : St) : Task → Prop
       s.tasks.length = 1 →
       CallerOK P s { frames := [.mgrStart], st := .runnable .go, mustCancel := mc, name := .caller }
   | waiting :
-      2 ≤ s.tasks.length → NoErr s → s.res P.g.output = none →
+      2 ≤ s.tasks.length → NoErr s → ¬ Settled s P.g.output →
       CallerOK P s { frames := [.mgrWait], st := .blocked (.cond .run), name := .caller }
   | woken (mc : Bool) :
       2 ≤ s.tasks.length →
       CallerOK P s { frames := [.mgrWait], st := .runnable .go, mustCancel := mc, name := .caller }
+  | cbStart (j : Nat) (mc : Bool) :      -- suspended in on_pipeline_start
+      s.tasks.length = 1 →
+      CallerOK P s { frames := [.mgrCbStart j], st := .runnable .go, mustCancel := mc, name := .caller }
 
 /-- **the invariant of plain runs** (while `outcome = none`) -/
 structure PInv (P : Program) (d : DagRef) (val : Node → Option Val) (s : St) : Prop where
@@ -264,10 +361,10 @@ theorem mem_taskErrors {s : St} (i : Nat) (tk : Task) (e : Exc) (hi : s.tasks[i]
   rw [List.mem_filterMap]
   exact ⟨tk, List.mem_of_getElem? hi, by simp [hst]⟩
 
-/-- a launched node without a result has a task that can still move, or waits for something external, or has
+/-- a launched node that is not settled has a task that can still move, or waits for something external, or has
 failed — the last is impossible while the caller waits un-notified -/
-theorem launched_no_result_contra {P : Program} {d : DagRef} {s : St} {n : Node} {tk : Task} {i : Nat}
-    (hi : s.tasks[i]? = some tk) (hok : NodeTaskOK P d val s n tk) (hres : s.res n = none)
+theorem launched_not_settled_contra {P : Program} {d : DagRef} {s : St} {n : Node} {tk : Task} {i : Nat}
+    (hi : s.tasks[i]? = some tk) (hok : NodeTaskOK P d val s n tk) (hns : ¬ Settled s n)
     (hrun : s.tasks.any isRunnable = false) (hext : hasExternal s = false) (herr : NoErr s) : False := by
   have h1 := not_any_runnable hrun i tk hi
   have h2 := no_external hext i tk hi
@@ -277,9 +374,14 @@ theorem launched_no_result_contra {P : Program} {d : DagRef} {s : St} {n : Node}
   | bodyDone k kw inv => simp [isRunnable] at h1
   | sleeping k kw inv dl => exact h2.2 _ _ _ _ rfl
   | slept k kw inv => simp [isRunnable] at h1
-  | doneOk _ h => simp [hres] at h
+  | cbStart => simp [isRunnable] at h1
+  | cbRetry => simp [isRunnable] at h1
+  | cbOk => simp [isRunnable] at h1
+  | cbFail => simp [isRunnable] at h1
+  | cbSave => simp [isRunnable] at h1
+  | doneOk _ h => exact hns ⟨h, i, _, hi, rfl, rfl⟩
   | doneExc e _ _ => exact herr i _ e hi rfl
-  | doneExcSaved e _ h => simp [hres] at h
+  | doneExcSaved e _ h => exact herr i _ e hi rfl
 
 /-- **C02 (plain), no stuck state**: in every state satisfying the invariant in which the run is still pending,
 some task can run or something external (a node body, a timer) is outstanding -/
@@ -299,6 +401,7 @@ theorem pinv_not_stuck {P : Program} {d : DagRef} (hp : PlainP P d) {s : St} (h 
   cases hcok with
   | start mc _ => simp [isRunnable] at hcr
   | woken mc _ => simp [isRunnable] at hcr
+  | cbStart j mc _ => simp [isRunnable] at hcr
   | waiting hlen herr hno =>
     rcases h.rest with ⟨h1, _⟩ | ⟨launched, hl, ⟨mtk, hm1, hmok⟩, hnodes, _⟩
     · omega
@@ -308,23 +411,35 @@ theorem pinv_not_stuck {P : Program} {d : DagRef} (hp : PlainP P d) {s : St} (h 
       | launching rest => simp [isRunnable] at hmr
       | waitingDest => simp [isRunnable] at hmr
       | waitNode m rest htopo hnr =>
-        -- some predecessor of m has no result; it is launched
-        unfold readyP at hnr
-        rw [List.all_eq_false] at hnr
-        obtain ⟨p, hpm, hpr⟩ := hnr
+        -- some predecessor of m is not settled; it is launched
+        have : ∃ p ∈ P.g.preds m, ¬ Settled s p := by
+          apply Classical.byContradiction
+          intro hc
+          apply hnr
+          intro p hp
+          apply Classical.byContradiction
+          intro hps
+          exact hc ⟨p, hp, hps⟩
+        obtain ⟨p, hpm, hpr⟩ := this
         have hpl := htopo.preds_launched p hpm
         obtain ⟨i, hi, rfl⟩ := List.getElem_of_mem hpl
         obtain ⟨tk, htk, hok⟩ := hnodes i hi
-        have : s.res launched[i] = none := by
-          cases hr : s.res launched[i] <;> simp_all
-        exact launched_no_result_contra htk hok this hrun hext herr
+        exact launched_not_settled_contra htk hok hpr hrun hext herr
       | waitDest htopo hres =>
         have hol : P.g.output ∈ launched := (htopo.same _).mpr hp.outIn
         obtain ⟨i, hi, hie⟩ := List.getElem_of_mem hol
         obtain ⟨tk, htk, hok⟩ := hnodes i hi
         rw [hie] at hok
-        exact launched_no_result_contra htk hok hres hrun hext herr
-      | done _ hsome => simp [hno] at hsome
+        exact launched_not_settled_contra htk hok hres hrun hext herr
+      | done _ hsome =>
+        -- the launcher has seen the output's result: its task is done or saving, the latter is runnable
+        have hol : P.g.output ∈ launched := by
+          rename_i htopo
+          exact (htopo.same _).mpr hp.outIn
+        obtain ⟨i, hi, hie⟩ := List.getElem_of_mem hol
+        obtain ⟨tk, htk, hok⟩ := hnodes i hi
+        rw [hie] at hok
+        exact launched_not_settled_contra htk hok hno hrun hext herr
 
 end MLPE.Eng
 
@@ -509,6 +624,11 @@ theorem NodeTaskOK.frame {P : Program} {d : DagRef} {s s' : St} {n : Node} {tk :
   | bodyDone k kw inv h1 h2 h3 => exact .bodyDone k kw inv (by rw [hp, h1]) (by rw [hr, h2]) h3
   | sleeping k kw inv dl h1 h2 h3 => exact .sleeping k kw inv dl (by rw [hp, h1]) (by rw [hr, h2]) h3
   | slept k kw inv h1 h2 h3 => exact .slept k kw inv (by rw [hp, h1]) (by rw [hr, h2]) h3
+  | cbStart j inv h1 h2 h3 h4 => exact .cbStart j inv (by rw [hp, h1]) (by rw [hr, h2]) (fun p hpp => hm p (h3 p hpp)) h4
+  | cbRetry j k kw inv h1 h2 h3 => exact .cbRetry j k kw inv (by rw [hp, h1]) (by rw [hr, h2]) h3
+  | cbOk j v h1 h2 h3 h4 => exact .cbOk j v (by rw [hp, h1]) (by rw [hr, h2]) h3 h4
+  | cbFail j e h1 h2 h3 => exact .cbFail j e (by rw [hp, h1]) (by rw [hr, h2]) h3
+  | cbSave j h1 h2 h3 => exact .cbSave j (by rw [hp, h1]) (by rw [hr, h2]) (by rw [hr]; exact h3)
   | doneOk h0 h1 h3 => exact .doneOk (by rw [hp, h0]) (by rw [hr, h1]) (by rw [hr]; exact h3)
   | doneExc e h0 h1 h3 => exact .doneExc e (by rw [hp, h0]) (by rw [hr, h1]) h3
   | doneExcSaved e h0 h1 h3 h4 => exact .doneExcSaved e (by rw [hp, h0]) (by rw [hr, h1]) (by rw [hr]; exact h3) h4
@@ -565,6 +685,7 @@ theorem CallerOK.wake {P : Program} {s : St} {tk : Task} (h : CallerOK P s tk) (
   | start mc _ => exact ⟨rfl, rfl, rfl, rfl⟩
   | waiting _ _ _ => simp [wakeSet, hrun]
   | woken mc _ => exact ⟨rfl, rfl, rfl, rfl⟩
+  | cbStart j mc _ => exact ⟨rfl, rfl, rfl, rfl⟩
 
 end MLPE.Eng
 
@@ -638,9 +759,37 @@ theorem wakeSet_noErr (ks : List Key) (evs : List Node) (tk : Task) (e : Exc) :
     | gate a b c o => simp [wakeSet]
     | sleep a b c dl => simp [wakeSet]
 
+theorem wakeSet_isDone (ks : List Key) (evs : List Node) (tk : Task) : (wakeSet ks evs tk).isDone = tk.isDone := by
+  obtain ⟨fr, st, mc, nm⟩ := tk
+  cases st with
+  | runnable rv => rfl
+  | done r => rfl
+  | blocked w =>
+    cases w with
+    | cond k => by_cases h : k ∈ ks <;> simp [wakeSet, h, Task.isDone]
+    | event n => by_cases h : n ∈ evs <;> simp [wakeSet, h, Task.isDone]
+    | gate a b c o => rfl
+    | sleep a b c dl => rfl
+
+theorem wakeSet_name' (ks : List Key) (evs : List Node) (tk : Task) : (wakeSet ks evs tk).name = tk.name := by
+  obtain ⟨fr, st, mc, nm⟩ := tk
+  cases st with
+  | runnable rv => rfl
+  | done r => rfl
+  | blocked w =>
+    cases w with
+    | cond k => by_cases h : k ∈ ks <;> simp [wakeSet, h]
+    | event n => by_cases h : n ∈ evs <;> simp [wakeSet, h]
+    | gate a b c o => rfl
+    | sleep a b c dl => rfl
+
+theorem NodeTaskOK.name_eq {P : Program} {d : DagRef} {s : St} {n : Node} {tk : Task} (h : NodeTaskOK P d val s n tk) :
+    tk.name = .node n ∧ tk.mustCancel = false := by
+  cases h <;> exact ⟨rfl, rfl⟩
+
 /-- **a step of the node task of `n = L[i]`**: the task list is re-mapped by a batch of notifications and task `2 + i`
 is replaced; the result of `n` may have been stored.  If the notifications cover everybody whose wait predicate may
-have become true, the invariant is preserved. -/
+have become true — i.e. they are sent when the node becomes *settled* — the invariant is preserved. -/
 theorem pinv_node_step {P : Program} {d : DagRef} (hp : PlainP P d) {s s' : St} (h : PInv P d val s)
     (L : List Node) (hlen : s.tasks.length = 2 + L.length)
     (hmain : ∃ tk, s.tasks[1]? = some tk ∧ MainOK P d s L tk)
@@ -651,11 +800,11 @@ theorem pinv_node_step {P : Program} {d : DagRef} (hp : PlainP P d) {s s' : St} 
     (hquiet : Quiet s') (hnorec : ∀ p v, s'.res p = some v → v.isRecur = false ∧ v.isExc = false)
     (hproc : ∀ m, m ≠ L[i] → s'.proc m = s.proc m)
     (hres : ∀ m, m ≠ L[i] → s'.res m = s.res m)
-    (hold : s.res L[i] = none)
+    (hold : s.res L[i] = none ∨ s'.res L[i] = s.res L[i])
     (hnew : NodeTaskOK P d val s' L[i] tk')
-    (hwake_succ : ∀ m, L[i] ∈ P.g.preds m → s'.res L[i] ≠ none → Key.node m ∈ K)
-    (hwake_out : L[i] = P.g.output → s'.res L[i] ≠ none → Key.node P.g.output ∈ K)
-    (hwake_run : (s'.res L[i] ≠ none ∨ ∃ e, tk'.st = .done (.exc e)) → Key.run ∈ K) :
+    (hwake_succ : ∀ m, L[i] ∈ P.g.preds m → tk'.isDone = true → (s'.res L[i]).isSome = true → Key.node m ∈ K)
+    (hwake_out : L[i] = P.g.output → tk'.isDone = true → (s'.res L[i]).isSome = true → Key.node P.g.output ∈ K)
+    (hwake_run : ((tk'.isDone = true ∧ (s'.res L[i]).isSome = true) ∨ ∃ e, tk'.st = .done (.exc e)) → Key.run ∈ K) :
     PInv P d val s' := by
   have hlen' : s'.tasks.length = 2 + L.length := by rw [htasks]; simp [hlen]
   have hget : ∀ j, j ≠ 2 + i → s'.tasks[j]? = (s.tasks[j]?).map (wakeSet K E) := by
@@ -665,12 +814,66 @@ theorem pinv_node_step {P : Program} {d : DagRef} (hp : PlainP P d) {s s' : St} 
     rw [htasks, List.getElem?_set_self (by simp [hlen]; omega)]
   obtain ⟨mtk, hm1, hmok⟩ := hmain
   have hnd : L.Nodup := hmok.nodup
+  -- a node other than the stepping one is settled afterwards only if it was before
+  have hset : ∀ p, p ≠ L[i] → Settled s' p → Settled s p := by
+    intro p hp ⟨h1, j, tk, hj, hnm, hdn⟩
+    refine ⟨by rw [← hres p hp]; exact h1, ?_⟩
+    by_cases hji : j = 2 + i
+    · subst hji
+      rw [hgeti] at hj; cases hj
+      rw [hnew.name_eq.1] at hnm
+      cases hnm; exact absurd rfl hp
+    · rw [hget j hji] at hj
+      cases hs : s.tasks[j]? with
+      | none => simp [hs] at hj
+      | some tk0 =>
+        simp only [hs, Option.map_some, Option.some.injEq] at hj
+        subst hj
+        exact ⟨j, tk0, hs, by rw [← wakeSet_name' K E tk0]; exact hnm, by rw [← wakeSet_isDone K E tk0]; exact hdn⟩
+  -- the stepping node is settled afterwards only if its own task has just finished with the result stored
+  have hsetI : Settled s' L[i] → tk'.isDone = true ∧ (s'.res L[i]).isSome = true := by
+    intro ⟨h1, j, tk, hj, hnm, hdn⟩
+    by_cases hji : j = 2 + i
+    · subst hji
+      rw [hgeti] at hj; cases hj
+      exact ⟨hdn, h1⟩
+    · exfalso
+      rw [hget j hji] at hj
+      cases hs : s.tasks[j]? with
+      | none => simp [hs] at hj
+      | some tk0 =>
+        simp only [hs, Option.map_some, Option.some.injEq] at hj
+        subst hj
+        rw [wakeSet_name' K E tk0] at hnm
+        have hjl : j < s.tasks.length := getElem?_lt hs
+        obtain ⟨ctk, hc0, hcok⟩ := h.caller
+        by_cases hj0 : j = 0
+        · subst hj0; rw [hc0] at hs; cases hs
+          cases hcok <;> simp at hnm
+        · by_cases hj1 : j = 1
+          · subst hj1; rw [hm1] at hs; cases hs
+            cases hmok <;> simp at hnm
+          · obtain ⟨j', rfl⟩ : ∃ j', j = 2 + j' := ⟨j - 2, by omega⟩
+            obtain ⟨tk1, htk1, hok1⟩ := hnodes j' (by omega)
+            rw [htk1] at hs; cases hs
+            rw [hok1.name_eq.1] at hnm
+            simp only [TaskName.node.injEq] at hnm
+            exact hji (by rw [(List.getElem_inj hnd).mp hnm])
+  have hmono : ∀ p, (s.res p).isSome = true → (s'.res p).isSome = true := by
+    intro p hpp
+    by_cases hpi : p = L[i]
+    · subst hpi
+      rcases hold with h0 | h0
+      · rw [h0] at hpp; simp at hpp
+      · rw [h0]; exact hpp
+    · rw [hres p hpi]; exact hpp
   refine ⟨hquiet, hnorec, ?_, Or.inr ⟨L, hlen', ?_, ?_, ?_⟩⟩
   · -- caller
     obtain ⟨ctk, hc0, hcok⟩ := h.caller
     refine ⟨wakeSet K E ctk, by rw [hget 0 (by omega), hc0]; rfl, ?_⟩
     cases hcok with
     | start mc h1 => omega
+    | cbStart j mc h1 => omega
     | woken mc h1 => exact .woken mc (by omega)
     | waiting h1 herr hno =>
       by_cases hr : Key.run ∈ K
@@ -690,47 +893,40 @@ theorem pinv_node_step {P : Program} {d : DagRef} (hp : PlainP P d) {s s' : St} 
               simp [hs] at hj
               subst hj
               exact herr j tk0 e hs ((wakeSet_noErr K E tk0 e).mp hst)
-        · by_cases hon : P.g.output = L[i]
-          · apply Classical.byContradiction; intro hc
-            have : s'.res L[i] ≠ none := by rw [← hon]; exact hc
-            exact hr (hwake_run (Or.inl this))
-          · rw [hres _ hon]; exact hno
+        · intro hst
+          by_cases hon : P.g.output = L[i]
+          · exact hr (hwake_run (Or.inl (hsetI (hon ▸ hst))))
+          · exact hno (hset _ hon hst)
   · -- main
     refine ⟨wakeSet K E mtk, by rw [hget 1 (by omega), hm1]; rfl, ?_⟩
     cases hmok with
     | init h1 h2 => subst h1; simp at hi
     | launching rest h1 => exact .launching rest h1
     | waitingDest h1 => exact .waitingDest h1
-    | done h1 h2 =>
-      refine .done h1 ?_
-      by_cases hon : P.g.output = L[i]
-      · rw [hon, hold] at h2; simp at h2
-      · rw [hres _ hon]; exact h2
+    | done h1 h2 => exact .done h1 (hmono _ h2)
     | waitNode m rest h1 h2 =>
       by_cases hk : Key.node m ∈ K
       · simp only [wakeSet, List.contains_iff_mem, hk, if_true]; exact .launching (m :: rest) h1
       · simp only [wakeSet, List.contains_iff_mem, hk, if_false]
         refine .waitNode m rest h1 ?_
-        rw [← h2]
-        apply readyP_congr
+        intro hra
+        apply h2
         intro p hpm
         by_cases hpn : p = L[i]
         · subst hpn
-          apply Classical.byContradiction; intro hc
-          have hne : s'.res L[i] ≠ none := by
-            intro h0; rw [h0, hold] at hc; exact hc rfl
-          exact hk (hwake_succ m hpm hne)
-        · exact hres p hpn
+          obtain ⟨a1, a2⟩ := hsetI (hra _ hpm)
+          exact absurd (hwake_succ m hpm a1 a2) hk
+        · exact hset p hpn (hra p hpm)
     | waitDest h1 h2 =>
       by_cases hk : Key.node P.g.output ∈ K
       · simp only [wakeSet, List.contains_iff_mem, hk, if_true]; exact .waitingDest h1
       · simp only [wakeSet, List.contains_iff_mem, hk, if_false]
         refine .waitDest h1 ?_
+        intro hst
         by_cases hon : P.g.output = L[i]
-        · apply Classical.byContradiction; intro hc
-          have : s'.res L[i] ≠ none := by rw [← hon]; exact hc
-          exact hk (hwake_out hon.symm this)
-        · rw [hres _ hon]; exact h2
+        · obtain ⟨a1, a2⟩ := hsetI (hon ▸ hst)
+          exact hk (hwake_out hon.symm a1 a2)
+        · exact h2 (hset _ hon hst)
   · -- node tasks
     intro j hj
     by_cases hji : j = i
@@ -739,10 +935,7 @@ theorem pinv_node_step {P : Program} {d : DagRef} (hp : PlainP P d) {s s' : St} 
       have hne : L[j] ≠ L[i] := by
         intro he
         exact hji ((List.getElem_inj hnd).mp he)
-      refine ⟨tk, ?_, hok.frame (hproc _ hne) (hres _ hne) (fun p hpp => by
-        by_cases hpi : p = L[i]
-        · subst hpi; rw [hold] at hpp; simp at hpp
-        · rw [hres p hpi]; exact hpp)⟩
+      refine ⟨tk, ?_, hok.frame (hproc _ hne) (hres _ hne) hmono⟩
       rw [hget (2 + j) (by omega), htk]
       simp [hok.wake_id]
   · intro n hn
@@ -818,16 +1011,21 @@ structure NodeStepCtx (P : Program) (d : DagRef) (val : Node → Option Val) (s 
   procO  : ∀ m, m ≠ L[i]'hi → s1.proc m = s.proc m
   procN  : s1.proc (L[i]'hi) = true
   quiet1 : Quiet s1
-  resN   : s.res (L[i]'hi) = none
 
-/-- terminal 1/2: the task suspends (awaits its body or sleeps) or yields -/
+/-- terminal 1/2: the task suspends (awaits its body, sleeps, or is suspended by a collaborator) — it is not done -/
 theorem node_step_suspend {P : Program} {d : DagRef} (hp : PlainP P d) {s s1 : St} {L : List Node} {i : Nat} {c : Ctx}
     {tk : Task} (x : NodeStepCtx P d val s s1 L i c tk) (fr : List Frame) (st : TaskSt) (s' : St)
-    (hs' : s' = s1.setTask c.t { tk with frames := fr, st := st }) (hst : ∀ e, st ≠ .done (.exc e))
-    (hnew : ∀ s'' : St, s''.proc (L[i]'x.hi) = true → s''.res (L[i]'x.hi) = none →
+    (hs' : s' = s1.setTask c.t { tk with frames := fr, st := st }) (hst : ∀ r, st ≠ .done r)
+    (hnew : ∀ s'' : St, s''.proc (L[i]'x.hi) = true → s''.res (L[i]'x.hi) = s.res (L[i]'x.hi) →
+      (∀ p, (s.res p).isSome = true → (s''.res p).isSome = true) →
       NodeTaskOK P d val s'' (L[i]'x.hi) { frames := fr, st := st, name := .node (L[i]'x.hi) }) :
     PInv P d val s' := by
   have hi := x.hi
+  have hnd : ({ tk with frames := fr, st := st } : Task).isDone = false := by
+    cases st with
+    | done r => exact absurd rfl (hst r)
+    | runnable _ => rfl
+    | blocked _ => rfl
   apply pinv_node_step hp x.inv L x.len x.main x.nodes x.fresh i hi [] [] { tk with frames := fr, st := st }
   · rw [hs', map_wakeSet_nil, ← x.tasks1, x.ct]; rfl
   · rw [hs']; exact x.quiet1.of_eq rfl rfl rfl rfl rfl
@@ -838,20 +1036,20 @@ theorem node_step_suspend {P : Program} {d : DagRef} (hp : PlainP P d) {s s1 : S
     exact x.inv.noRecRes p v this
   · intro m hm; rw [hs']; exact x.procO m hm
   · intro m _; rw [hs']; show s1.res m = s.res m; rw [x.res1]
-  · exact x.resN
+  · right; rw [hs']; show s1.res _ = s.res _; rw [x.res1]
   · have hpn : s'.proc (L[i]'hi) = true := by rw [hs']; exact x.procN
-    have hrn : s'.res (L[i]'hi) = none := by rw [hs']; show s1.res _ = none; rw [x.res1]; exact x.resN
-    have := hnew s' hpn hrn
+    have hrn : s'.res (L[i]'hi) = s.res (L[i]'hi) := by rw [hs']; show s1.res _ = _; rw [x.res1]
+    have := hnew s' hpn hrn (by intro p hpp; rw [hs']; show (s1.res p).isSome = true; rw [x.res1]; exact hpp)
     obtain ⟨h1, h2⟩ := x.tkname
     have hrec : ({ tk with frames := fr, st := st } : Task) = { frames := fr, st := st, name := .node (L[i]'hi) } := by
       cases tk; simp_all
     rw [hrec]; exact this
-  · intro m _ hne; exfalso; apply hne; rw [hs']; show s1.res _ = none; rw [x.res1]; exact x.resN
-  · intro _ hne; exfalso; apply hne; rw [hs']; show s1.res _ = none; rw [x.res1]; exact x.resN
+  · intro m _ hd _; rw [hnd] at hd; cases hd
+  · intro _ hd _; rw [hnd] at hd; cases hd
   · intro hor
-    rcases hor with hne | ⟨e, he⟩
-    · exfalso; apply hne; rw [hs']; show s1.res _ = none; rw [x.res1]; exact x.resN
-    · exact absurd he (hst e)
+    rcases hor with ⟨hd, _⟩ | ⟨e, he⟩
+    · rw [hnd] at hd; cases hd
+    · exact absurd he (hst _)
 
 end MLPE.Eng
 
@@ -885,19 +1083,21 @@ theorem wakeSet_name (ks : List Key) (evs : List Node) (tk : Task) :
     | gate a b c o => simp [wakeSet]
     | sleep a b c dl => simp [wakeSet]
 
-/-- terminal 3/4: the node task ends (with a value stored, or with an exception) after the `finally` notifications -/
+/-- terminal 3/4: the node task ends (with a value stored, or with an exception) after the `finally` notifications.
+(A) no value, exception `e`; (B) the value `v` is stored in this section, the task ends normally or the artifact store
+raised; (C) the value was stored in an earlier section (the artifact store had suspended) and the task ends normally -/
 theorem node_step_finish {P : Program} {d : DagRef} (hp : PlainP P d) {s s1 : St} {L : List Node} {i : Nat} {c : Ctx}
     {tk : Task} (x : NodeStepCtx P d val s s1 L i c tk) (s2 : St) (r : TaskRes) (obs : List Obs) (s' : St)
-    (hs2 : (s2 = s1 ∧ ∃ e, r = .exc e ∧ Track P d val (NodeFails P val (L[i]'x.hi) e ∨ CollabFails P e)) ∨
-      (∃ v, s2 = s1.setRes (L[i]'x.hi) v ∧ (v.isRecur = false ∧ v.isExc = false) ∧
-        Track P d val (val (L[i]'x.hi) = some v) ∧ (r = .ok ∨ ∃ e, r = .exc e ∧ CollabFails P e)))
+    (hs2 : (s.res (L[i]'x.hi) = none ∧ s2 = s1 ∧
+              ∃ e, r = .exc e ∧ Track P d val (NodeFails P val (L[i]'x.hi) e ∨ CollabFails P e)) ∨
+      (s.res (L[i]'x.hi) = none ∧ ∃ v, s2 = s1.setRes (L[i]'x.hi) v ∧ (v.isRecur = false ∧ v.isExc = false) ∧
+        Track P d val (val (L[i]'x.hi) = some v) ∧ (r = .ok ∨ ∃ e, r = .exc e ∧ CollabFails P e)) ∨
+      ((s.res (L[i]'x.hi)).isSome = true ∧ s2 = s1 ∧ r = .ok ∧ Track P d val (val (L[i]'x.hi) = s.res (L[i]'x.hi))))
     (hs' : s' = (endTask c (nodeFinally P s2 d (L[i]'x.hi) true) obs r).1) :
     PInv P d val s' := by
   have hi := x.hi
   have ht2 : s2.tasks = s.tasks := by
-    rcases hs2 with ⟨h, _⟩ | ⟨v, h, _⟩ <;> rw [h]
-    · exact x.tasks1
-    · exact x.tasks1
+    rcases hs2 with ⟨_, h, _⟩ | ⟨_, v, h, _⟩ | ⟨_, h, _⟩ <;> rw [h] <;> exact x.tasks1
   have htf : (nodeFinally P s2 d L[i] true).tasks = s.tasks.map (wakeSet (finallyKeys P d L[i]) [L[i]]) := by
     rw [tasks_nodeFinally, ht2]
   have hcur : (nodeFinally P s2 d L[i] true).tasks[c.t]? = some (wakeSet (finallyKeys P d L[i]) [L[i]] tk) := by
@@ -909,9 +1109,9 @@ theorem node_step_finish {P : Program} {d : DagRef} (hp : PlainP P d) {s s1 : St
   have hres' : s'.res = s2.res := by rw [hs', hend]; exact hf1
   have hproc' : s'.proc = s2.proc := by rw [hs', hend]; exact hf3
   have hproc2 : s2.proc = s1.proc := by
-    rcases hs2 with ⟨h, _⟩ | ⟨v, h, _⟩ <;> rw [h]; rfl
+    rcases hs2 with ⟨_, h, _⟩ | ⟨_, v, h, _⟩ | ⟨_, h, _⟩ <;> rw [h] <;> rfl
   have hq2 : Quiet s2 := by
-    rcases hs2 with ⟨h, _⟩ | ⟨v, h, _⟩
+    rcases hs2 with ⟨_, h, _⟩ | ⟨_, v, h, _⟩ | ⟨_, h, _⟩
     · rw [h]; exact x.quiet1
     · rw [h]
       refine ⟨fun n => ?_, x.quiet1.procHid, x.quiet1.opened, x.quiet1.sw, x.quiet1.addl, x.quiet1.hides, x.quiet1.pend⟩
@@ -919,6 +1119,13 @@ theorem node_step_finish {P : Program} {d : DagRef} (hp : PlainP P d) {s s1 : St
       split
       · rfl
       · exact x.quiet1.resHid n
+    · rw [h]; exact x.quiet1
+  have hresO : ∀ m, m ≠ L[i] → s2.res m = s.res m := by
+    intro m hm
+    rcases hs2 with ⟨_, h, _⟩ | ⟨_, v0, h, _⟩ | ⟨_, h, _⟩
+    · rw [h, x.res1]
+    · rw [h]; simp only [St.setRes, upd, hm, if_false]; rw [x.res1]
+    · rw [h, x.res1]
   apply pinv_node_step hp x.inv L x.len x.main x.nodes x.fresh i hi (finallyKeys P d L[i]) [L[i]]
     { frames := [], st := .done r, name := .node L[i] }
   · rw [hs', hend]
@@ -930,25 +1137,25 @@ theorem node_step_finish {P : Program} {d : DagRef} (hp : PlainP P d) {s s1 : St
   · rw [hs', hend]; exact hq2.of_eq hf2 hf4 hf5 hf6 hf7 (nodeFinally_hideCount P s2 d L[i] true).1 hf8
   · intro p v hv
     rw [hres'] at hv
-    rcases hs2 with ⟨h, _⟩ | ⟨v0, h, hv0, _⟩
+    rcases hs2 with ⟨_, h, _⟩ | ⟨_, v0, h, hv0, _⟩ | ⟨_, h, _⟩
     · rw [h, x.res1] at hv; exact x.inv.noRecRes p v hv
     · rw [h] at hv
       simp only [St.setRes, upd] at hv
       split at hv
       · cases hv; exact hv0
       · rw [x.res1] at hv; exact x.inv.noRecRes p v hv
+    · rw [h, x.res1] at hv; exact x.inv.noRecRes p v hv
   · intro m hm; rw [hproc', hproc2]; exact x.procO m hm
-  · intro m hm
-    rw [hres']
-    rcases hs2 with ⟨h, _⟩ | ⟨v0, h, _, _⟩
-    · rw [h, x.res1]
-    · rw [h]; simp only [St.setRes, upd, hm, if_false]; rw [x.res1]
-  · exact x.resN
+  · intro m hm; rw [hres']; exact hresO m hm
+  · rcases hs2 with ⟨h0, _⟩ | ⟨h0, _⟩ | ⟨_, h, _⟩
+    · exact Or.inl h0
+    · exact Or.inl h0
+    · right; rw [hres', h, x.res1]
   · have hrn : s'.res L[i] = s2.res L[i] := by rw [hres']
-    rcases hs2 with ⟨h, e, he, htr⟩ | ⟨v0, h, _, htr, he⟩
+    rcases hs2 with ⟨h0, h, e, he, htr⟩ | ⟨h0, v0, h, _, htr, he⟩ | ⟨h0, h, he, htr⟩
     · subst he
       refine .doneExc e (by rw [hproc', hproc2]; exact x.procN) ?_ htr
-      rw [hrn, h, x.res1]; exact x.resN
+      rw [hrn, h, x.res1]; exact h0
     · rcases he with he | ⟨e, he, hce⟩
       · subst he
         refine .doneOk (by rw [hproc', hproc2]; exact x.procN) ?_ ?_
@@ -958,8 +1165,12 @@ theorem node_step_finish {P : Program} {d : DagRef} (hp : PlainP P d) {s s1 : St
         refine .doneExcSaved e (by rw [hproc', hproc2]; exact x.procN) ?_ ?_ hce
         · rw [hrn, h]; simp [St.setRes]
         · intro hsol; rw [hrn, h, htr hsol]; simp [St.setRes]
-  · intro m hm _; exact succ_mem_finallyKeys hp _ m hm
-  · intro ho _; rw [ho]; exact out_mem_finallyKeys hp
+    · subst he
+      refine .doneOk (by rw [hproc', hproc2]; exact x.procN) ?_ ?_
+      · rw [hrn, h, x.res1]; exact h0
+      · intro hsol; rw [hrn, h, x.res1]; exact htr hsol
+  · intro m hm _ _; exact succ_mem_finallyKeys hp _ m hm
+  · intro ho _ _; rw [ho]; exact out_mem_finallyKeys hp
   · intro _; exact run_mem_finallyKeys P d _
 
 end MLPE.Eng
@@ -968,62 +1179,159 @@ namespace MLPE.Eng
 open MLPE
 variable {val : Node → Option Val}
 
+/-- a call into a collaborator that does not raise: the continuation runs at once, or the task is suspended in the
+callback (`mk j` is the per-task predicate of the suspended state with `j` yields left) -/
+theorem cbThen_plain {P : Program} {d : DagRef} (hp : PlainP P d) {s s1 : St} {L : List Node} {i : Nat} {c : Ctx}
+    {tk : Task} (x : NodeStepCtx P d val s s1 L i c tk) (obs : List Obs) (pc : Nat → NodePc) (m : Nat)
+    (k : St → List Obs → Out) (hk : PInv P d val (k s1 obs).1)
+    (mk : ∀ (j : Nat) (s'' : St), s''.proc (L[i]'x.hi) = true → s''.res (L[i]'x.hi) = s.res (L[i]'x.hi) →
+      (∀ p, (s.res p).isSome = true → (s''.res p).isSome = true) →
+      NodeTaskOK P d val s'' (L[i]'x.hi)
+        { frames := [.node d (L[i]'x.hi) false (pc j)], st := .runnable .go, name := .node (L[i]'x.hi) }) :
+    PInv P d val (cbThen c s1 obs (fun j => [.node d (L[i]'x.hi) false (pc j)]) m k).1 := by
+  cases m with
+  | zero => exact hk
+  | succ j =>
+    simp only [cbThen]
+    rw [yield_tasks c s1 _ _ tk (by rw [x.tasks1, x.ct]; exact x.htk)]
+    exact node_step_suspend hp x _ _ _ rfl (by intro r; simp) (mk j)
+
 /-- a collaborator raised inside the node's coroutine before any value was stored -/
 theorem node_cbraise_plain {P : Program} {d : DagRef} (hp : PlainP P d) {s s1 : St} {L : List Node} {i : Nat} {c : Ctx}
-    {tk : Task} (x : NodeStepCtx P d val s s1 L i c tk) (obs : List Obs) (e : Exc) (hce : CollabFails P e) :
-    PInv P d val (nodeCbRaise c s1 obs d (L[i]'x.hi) [] e).1 := by
+    {tk : Task} (x : NodeStepCtx P d val s s1 L i c tk) (hr0 : s.res (L[i]'x.hi) = none) (obs : List Obs) (e : Exc)
+    (hce : CollabFails P e) : PInv P d val (nodeCbRaise c s1 obs d (L[i]'x.hi) [] e).1 := by
   simp only [nodeCbRaise, raiseOut, unwindFrames]
-  exact node_step_finish hp x s1 (.exc e) _ _ (Or.inl ⟨rfl, e, rfl, fun _ => Or.inr hce⟩) (by rw [x.cP])
+  exact node_step_finish hp x s1 (.exc e) _ _ (Or.inl ⟨hr0, rfl, e, rfl, fun _ => Or.inr hce⟩) (by rw [x.cP])
 
 theorem node_cbraiseInTry_plain {P : Program} {d : DagRef} (hp : PlainP P d) {s s1 : St} {L : List Node} {i : Nat}
-    {c : Ctx} {tk : Task} (x : NodeStepCtx P d val s s1 L i c tk) (obs : List Obs) (e : Exc) (hce : CollabFails P e) :
-    PInv P d val (nodeCbRaiseInTry c s1 obs d (L[i]'x.hi) [] e).1 := by
+    {c : Ctx} {tk : Task} (x : NodeStepCtx P d val s s1 L i c tk) (hr0 : s.res (L[i]'x.hi) = none) (obs : List Obs)
+    (e : Exc) (hce : CollabFails P e) : PInv P d val (nodeCbRaiseInTry c s1 obs d (L[i]'x.hi) [] e).1 := by
   simp only [nodeCbRaiseInTry]
-  exact node_cbraise_plain hp x _ e hce
+  exact node_cbraise_plain hp x hr0 _ e hce
+
+/-- `_run_node` after the artifact store returned: the `finally`, the task ends -/
+theorem node_finish_plain {P : Program} {d : DagRef} (hp : PlainP P d) {s s1 : St} {L : List Node} {i : Nat} {c : Ctx}
+    {tk : Task} (x : NodeStepCtx P d val s s1 L i c tk) (obs : List Obs)
+    (hrs : (s.res (L[i]'x.hi)).isSome = true) (htr : Track P d val (val (L[i]'x.hi) = s.res (L[i]'x.hi))) :
+    PInv P d val (nodeFinish c s1 obs d (L[i]'x.hi) []).1 := by
+  simp only [nodeFinish, retTo]
+  exact node_step_finish hp x s1 .ok _ _ (Or.inr (Or.inr ⟨hrs, rfl, rfl, htr⟩)) (by rw [x.cP])
+
+/-- `_run_node` after `_execute_node` returned the value `v`: store, save (the store may suspend or raise), `finally` -/
+theorem node_post_plain {P : Program} {d : DagRef} (hp : PlainP P d) {s s1 : St} {L : List Node} {i : Nat} {c : Ctx}
+    {tk : Task} (x : NodeStepCtx P d val s s1 L i c tk) (hr0 : s.res (L[i]'x.hi) = none) (obs : List Obs) (v : Val)
+    (hv : v.isRecur = false ∧ v.isExc = false) (htr : Track P d val (val (L[i]'x.hi) = some v)) :
+    PInv P d val (nodePost c s1 obs d (L[i]'x.hi) [] v).1 := by
+  simp only [nodePost, recSpawn, hv.1, hv.2, Bool.false_eq_true, if_false, storeIf, if_true,
+    Bool.not_false, Bool.true_and, Bool.and_true, cbCall]
+  cases hr2 : c.P.cbRaise .save (L[i]'x.hi) with
+  | some e =>
+    simp only [nodeCbRaise, raiseOut, unwindFrames]
+    exact node_step_finish hp x (s1.setRes _ v) (.exc e) _ _
+      (Or.inr (Or.inl ⟨hr0, v, rfl, hv, htr, Or.inr ⟨e, rfl, _, _, by rw [← x.cP]; exact hr2⟩⟩)) (by rw [x.cP])
+  | none =>
+    simp only []
+    cases hy : c.P.cbYield .save (L[i]'x.hi) with
+    | zero =>
+      simp only [cbThen, nodeFinish, retTo]
+      exact node_step_finish hp x (s1.setRes _ v) .ok _ _ (Or.inr (Or.inl ⟨hr0, v, rfl, hv, htr, Or.inl rfl⟩)) (by rw [x.cP])
+    | succ j =>
+      -- the store suspends: the value is stored, nobody is notified yet
+      simp only [cbThen]
+      have hcur : (s1.setRes (L[i]'x.hi) v).tasks[c.t]? = some tk := by
+        show s1.tasks[c.t]? = some tk
+        rw [x.tasks1, x.ct]; exact x.htk
+      rw [yield_tasks c _ _ _ tk hcur]
+      have hi := x.hi
+      apply pinv_node_step hp x.inv L x.len x.main x.nodes x.fresh i hi [] []
+        { tk with frames := [.node d (L[i]'x.hi) false (.cbSave j)], st := .runnable .go }
+      · simp only [St.setTask, St.setRes, map_wakeSet_nil, ← x.tasks1, x.ct]
+      · refine ⟨fun n => ?_, x.quiet1.procHid, x.quiet1.opened, x.quiet1.sw, x.quiet1.addl, x.quiet1.hides, x.quiet1.pend⟩
+        simp only [St.setTask, St.setRes, upd]
+        split
+        · rfl
+        · exact x.quiet1.resHid n
+      · intro p w hw
+        simp only [St.setTask, St.setRes, upd] at hw
+        split at hw
+        · cases hw; exact hv
+        · rw [x.res1] at hw; exact x.inv.noRecRes p w hw
+      · intro m hm; exact x.procO m hm
+      · intro m hm
+        simp only [St.setTask, St.setRes, upd, hm, if_false]
+        rw [x.res1]
+      · exact Or.inl hr0
+      · obtain ⟨h1, h2⟩ := x.tkname
+        have hrec : ({ tk with frames := [.node d (L[i]'x.hi) false (.cbSave j)], st := .runnable .go } : Task) =
+            { frames := [.node d (L[i]'x.hi) false (.cbSave j)], st := .runnable .go, name := .node (L[i]'hi) } := by
+          cases tk; simp_all
+        rw [hrec]
+        refine .cbSave j x.procN (by simp [St.setTask, St.setRes]) ?_
+        intro hsol
+        rw [htr hsol]; simp [St.setTask, St.setRes]
+      · intro m _ hd _; simp [Task.isDone] at hd
+      · intro _ hd _; simp [Task.isDone] at hd
+      · intro hor
+        rcases hor with ⟨hd, _⟩ | ⟨e, he⟩
+        · simp [Task.isDone] at hd
+        · simp at he
 
 /-- a node of a plain run produced the value `v`: `on_node_complete(None)`, store, save, `finally`, task ends -/
 theorem node_success_plain {P : Program} {d : DagRef} (hp : PlainP P d) {s s1 : St} {L : List Node} {i : Nat} {c : Ctx}
-    {tk : Task} (x : NodeStepCtx P d val s s1 L i c tk) (obs : List Obs) (v : Val) (hv : v.isRecur = false ∧ v.isExc = false)
-    (htr : Track P d val (val (L[i]'x.hi) = some v)) :
+    {tk : Task} (x : NodeStepCtx P d val s s1 L i c tk) (hr0 : s.res (L[i]'x.hi) = none) (obs : List Obs) (v : Val)
+    (hv : v.isRecur = false ∧ v.isExc = false) (htr : Track P d val (val (L[i]'x.hi) = some v)) :
     PInv P d val (nodeSuccess c s1 obs d (L[i]'x.hi) [] v).1 := by
-  have hcb : ∀ k n, c.P.cbYield k n = 0 := by rw [x.cP]; exact hp.noCb
   simp only [nodeSuccess, cbCall]
   cases hr1 : c.P.cbRaise .ncomplete (L[i]'x.hi) with
   | some e =>
     simp only []
-    exact node_cbraiseInTry_plain hp x _ e ⟨_, _, by rw [← x.cP]; exact hr1⟩
+    exact node_cbraiseInTry_plain hp x hr0 _ e ⟨_, _, by rw [← x.cP]; exact hr1⟩
   | none =>
-    simp only [hcb, cbThen, nodePost, recSpawn, hv.1, hv.2, Bool.false_eq_true, if_false, storeIf, if_true,
-      Bool.not_false, Bool.true_and, Bool.and_true, cbCall]
-    cases hr2 : c.P.cbRaise .save (L[i]'x.hi) with
-    | some e =>
-      simp only [nodeCbRaise, raiseOut, unwindFrames]
-      exact node_step_finish hp x (s1.setRes _ v) (.exc e) _ _
-        (Or.inr ⟨v, rfl, hv, htr, Or.inr ⟨e, rfl, _, _, by rw [← x.cP]; exact hr2⟩⟩) (by rw [x.cP])
-    | none =>
-      simp only [hcb, cbThen, nodeFinish, retTo]
-      exact node_step_finish hp x (s1.setRes _ v) .ok _ _ (Or.inr ⟨v, rfl, hv, htr, Or.inl rfl⟩) (by rw [x.cP])
+    simp only []
+    exact cbThen_plain hp x _ (fun j => .cbOk j v) _ _ (node_post_plain hp x hr0 _ v hv htr)
+      (fun j s'' h1 h2 _ => .cbOk j v h1 (by rw [h2]; exact hr0) hv htr)
+
+/-- `_execute_node`'s `except Exception` after its `on_node_complete(error)` returned: the exception propagates -/
+theorem node_failCont_plain {P : Program} {d : DagRef} (hp : PlainP P d) {s s1 : St} {L : List Node} {i : Nat} {c : Ctx}
+    {tk : Task} (x : NodeStepCtx P d val s s1 L i c tk) (hr0 : s.res (L[i]'x.hi) = none) (obs : List Obs) (e : Exc)
+    (htr : Track P d val (NodeFails P val (L[i]'x.hi) e)) :
+    PInv P d val (nodeFailCont c s1 obs d (L[i]'x.hi) [] e).1 := by
+  simp only [nodeFailCont, hp.notOneof, Bool.false_eq_true, if_false, raiseOut, unwindFrames]
+  exact node_step_finish hp x s1 (.exc e) _ _ (Or.inl ⟨hr0, rfl, e, rfl, fun hs => Or.inl (htr hs)⟩) (by rw [x.cP])
 
 /-- a node of a plain run failed for good with `e` -/
 theorem node_fail_plain {P : Program} {d : DagRef} (hp : PlainP P d) {s s1 : St} {L : List Node} {i : Nat} {c : Ctx}
-    {tk : Task} (x : NodeStepCtx P d val s s1 L i c tk) (obs : List Obs) (e : Exc)
+    {tk : Task} (x : NodeStepCtx P d val s s1 L i c tk) (hr0 : s.res (L[i]'x.hi) = none) (obs : List Obs) (e : Exc)
     (htr : Track P d val (NodeFails P val (L[i]'x.hi) e)) :
     PInv P d val (nodeFail c s1 obs d (L[i]'x.hi) [] e).1 := by
-  have hcb : ∀ k n, c.P.cbYield k n = 0 := by rw [x.cP]; exact hp.noCb
   simp only [nodeFail, cbCall]
   cases hr1 : c.P.cbRaise .ncomplete (L[i]'x.hi) with
   | some e' =>
     simp only []
-    exact node_cbraise_plain hp x _ e' ⟨_, _, by rw [← x.cP]; exact hr1⟩
+    exact node_cbraise_plain hp x hr0 _ e' ⟨_, _, by rw [← x.cP]; exact hr1⟩
   | none =>
-    simp only [hcb, cbThen, nodeFailCont, hp.notOneof, Bool.false_eq_true, if_false, raiseOut, unwindFrames]
-    exact node_step_finish hp x s1 (.exc e) _ _ (Or.inl ⟨rfl, e, rfl, fun hs => Or.inl (htr hs)⟩) (by rw [x.cP])
+    simp only []
+    exact cbThen_plain hp x _ (fun j => .cbFail j e) _ _ (node_failCont_plain hp x hr0 _ e htr)
+      (fun j s'' h1 h2 _ => .cbFail j e h1 (by rw [h2]; exact hr0) htr)
+
+/-- after a retried attempt's `on_node_complete(error)`: sleep `delay` (a bare yield for 0) -/
+theorem node_sleep_plain {P : Program} {d : DagRef} (hp : PlainP P d) {s s1 : St} {L : List Node} {i : Nat} {c : Ctx}
+    {tk : Task} (x : NodeStepCtx P d val s s1 L i c tk) (hr0 : s.res (L[i]'x.hi) = none) (obs : List Obs)
+    (k : Nat) (kw : Kwargs) (inv : Nat) (hnext : Track P d val (Att P val (L[i]'x.hi) (k + 1) kw inv)) :
+    PInv P d val (nodeSleep c s1 obs d (L[i]'x.hi) false [] k kw inv).1 := by
+  simp only [nodeSleep]
+  split
+  · rw [block_tasks c s1 _ _ _ tk (by rw [x.tasks1, x.ct]; exact x.htk)]
+    exact node_step_suspend hp x _ _ _ rfl (by intro r; simp)
+      (fun s'' h1 h2 _ => .sleeping k kw inv _ h1 (by rw [h2]; exact hr0) hnext)
+  · rw [yield_tasks c s1 _ _ tk (by rw [x.tasks1, x.ct]; exact x.htk)]
+    exact node_step_suspend hp x _ _ _ rfl (by intro r; simp)
+      (fun s'' h1 h2 _ => .slept k kw inv h1 (by rw [h2]; exact hr0) hnext)
 
 theorem node_afterBody_plain {P : Program} {d : DagRef} (hp : PlainP P d) {s s1 : St} {L : List Node} {i : Nat} {c : Ctx}
-    {tk : Task} (x : NodeStepCtx P d val s s1 L i c tk) (obs : List Obs) (k : Nat) (kw : Kwargs) (inv : Nat)
-    (hatt : Track P d val (Att P val (L[i]'x.hi) k kw inv)) :
+    {tk : Task} (x : NodeStepCtx P d val s s1 L i c tk) (hr0 : s.res (L[i]'x.hi) = none) (obs : List Obs) (k : Nat)
+    (kw : Kwargs) (inv : Nat) (hatt : Track P d val (Att P val (L[i]'x.hi) k kw inv)) :
     PInv P d val (nodeAfterBody c s1 obs d (L[i]'x.hi) false [] k kw inv (P.body (L[i]'x.hi) kw inv k)).1 := by
-  have hcb : ∀ k n, c.P.cbYield k n = 0 := by rw [x.cP]; exact hp.noCb
   have hmem : L[i]'x.hi ∈ d.nodes := by
     obtain ⟨mtk, _, hmok⟩ := x.main
     exact hmok.mem_nodes (List.getElem_mem x.hi)
@@ -1032,7 +1340,7 @@ theorem node_afterBody_plain {P : Program} {d : DagRef} (hp : PlainP P d) {s s1 
       PInv P d val (nodeDefault c s1 obs' d (L[i]'x.hi) [] kw).1 := by
     intro obs' hd
     simp only [nodeDefault]
-    refine node_success_plain hp x _ _ (by rw [x.cP]; exact hp.noRecurD _ _) ?_
+    refine node_success_plain hp x hr0 _ _ (by rw [x.cP]; exact hp.noRecurD _ _) ?_
     intro hsol
     have a := hatt hsol
     rw [x.cP]
@@ -1045,7 +1353,7 @@ theorem node_afterBody_plain {P : Program} {d : DagRef} (hp : PlainP P d) {s s1 
   unfold nodeAfterBody
   cases ho : P.body (L[i]'x.hi) kw inv k with
   | ret v =>
-    refine node_success_plain hp x obs v (hp.noRecur _ _ _ _ _ ho) ?_
+    refine node_success_plain hp x hr0 obs v (hp.noRecur _ _ _ _ _ ho) ?_
     intro hsol
     have a := hatt hsol
     exact hsol.value_of_final hmem a.preds (Or.inl (a.final _ (by rw [ho]; rfl)))
@@ -1061,7 +1369,7 @@ theorem node_afterBody_plain {P : Program} {d : DagRef} (hp : PlainP P d) {s s1 
         · next hud => rw [x.cP] at hud; exact hdf _ (by rw [ho]; simp [Retry.decide, hrt, hk, hud])
         · next hud =>
           rw [x.cP] at hud
-          exact node_fail_plain hp x _ e (hfl obs e (by rw [ho]; simp [Retry.decide, hrt, hk, hud]))
+          exact node_fail_plain hp x hr0 _ e (hfl obs e (by rw [ho]; simp [Retry.decide, hrt, hk, hud]))
       · next hk =>
         rw [x.cP] at hk
         -- retried: on_node_complete(error), then sleep / yield
@@ -1072,16 +1380,11 @@ theorem node_afterBody_plain {P : Program} {d : DagRef} (hp : PlainP P d) {s s1 
         cases hr1 : c.P.cbRaise .ncomplete (L[i]'x.hi) with
         | some e' =>
           simp only []
-          exact node_cbraiseInTry_plain hp x _ e' ⟨_, _, by rw [← x.cP]; exact hr1⟩
+          exact node_cbraiseInTry_plain hp x hr0 _ e' ⟨_, _, by rw [← x.cP]; exact hr1⟩
         | none =>
-        simp only [hcb, cbThen, nodeSleep]
-        split
-        · rw [block_tasks c s1 _ _ _ tk (by rw [x.tasks1, x.ct]; exact x.htk)]
-          exact node_step_suspend hp x _ _ _ rfl (by intro e; simp)
-            (fun s'' h1 h2 => .sleeping k kw inv _ h1 h2 hnext)
-        · rw [yield_tasks c s1 _ _ tk (by rw [x.tasks1, x.ct]; exact x.htk)]
-          exact node_step_suspend hp x _ _ _ rfl (by intro e; simp)
-            (fun s'' h1 h2 => .slept k kw inv h1 h2 hnext)
+          simp only []
+          exact cbThen_plain hp x _ (fun j => .cbRetry j k kw inv) _ _ (node_sleep_plain hp x hr0 _ k kw inv hnext)
+            (fun j s'' h1 h2 _ => .cbRetry j k kw inv h1 (by rw [h2]; exact hr0) hnext)
     · next hrt =>
       rw [x.cP] at hrt
       split
@@ -1090,23 +1393,25 @@ theorem node_afterBody_plain {P : Program} {d : DagRef} (hp : PlainP P d) {s s1 
         · next hud => rw [x.cP] at hud; exact hdf _ (by rw [ho]; simp [Retry.decide, hrt, hex, hud])
         · next hud =>
           rw [x.cP] at hud
-          exact node_fail_plain hp x _ e (hfl obs e (by rw [ho]; simp [Retry.decide, hrt, hex, hud]))
+          exact node_fail_plain hp x hr0 _ e (hfl obs e (by rw [ho]; simp [Retry.decide, hrt, hex, hud]))
       · next hex =>
         simp only [raiseOut, unwindFrames]
         exact node_step_finish hp x s1 (.exc e) _ _
-          (Or.inl ⟨rfl, e, rfl, fun hs => Or.inl (hfl obs e (by rw [ho]; simp [Retry.decide, hrt, hex]) hs)⟩) (by rw [x.cP])
+          (Or.inl ⟨hr0, rfl, e, rfl, fun hs => Or.inl (hfl obs e (by rw [ho]; simp [Retry.decide, hrt, hex]) hs)⟩)
+          (by rw [x.cP])
 
 /-- one attempt: the body runs inline, or the task suspends until it completes -/
 theorem node_attempt_plain {P : Program} {d : DagRef} (hp : PlainP P d) {s s1 : St} {L : List Node} {i : Nat} {c : Ctx}
-    {tk : Task} (x : NodeStepCtx P d val s s1 L i c tk) (obs : List Obs) (k : Nat) (kw : Kwargs) (inv : Nat)
-    (hatt : Track P d val (Att P val (L[i]'x.hi) k kw inv)) :
+    {tk : Task} (x : NodeStepCtx P d val s s1 L i c tk) (hr0 : s.res (L[i]'x.hi) = none) (obs : List Obs) (k : Nat)
+    (kw : Kwargs) (inv : Nat) (hatt : Track P d val (Att P val (L[i]'x.hi) k kw inv)) :
     PInv P d val (nodeAttempt c s1 obs d (L[i]'x.hi) false [] k kw inv).1 := by
   simp only [nodeAttempt, Bool.false_eq_true, if_false, x.cP]
   split
-  · exact node_afterBody_plain hp x (obs ++ [.body (L[i]'x.hi) inv k kw]) k kw inv hatt
+  · exact node_afterBody_plain hp x hr0 (obs ++ [.body (L[i]'x.hi) inv k kw]) k kw inv hatt
   all_goals
     rw [block_tasks c s1 _ _ _ tk (by rw [x.tasks1, x.ct]; exact x.htk)]
-    exact node_step_suspend hp x _ _ _ rfl (by intro e; simp) (fun s'' h1 h2 => .inBody k kw inv h1 h2 hatt)
+    exact node_step_suspend hp x _ _ _ rfl (by intro r; simp)
+      (fun s'' h1 h2 _ => .inBody k kw inv h1 (by rw [h2]; exact hr0) hatt)
 
 end MLPE.Eng
 
@@ -1161,6 +1466,11 @@ theorem agree_of_nodes {P : Program} {d : DagRef} {s : St} {L : List Node}
     | sleeping _ _ _ _ _ h2 => rw [h2] at hv; cases hv
     | slept _ _ _ _ h2 => rw [h2] at hv; cases hv
     | doneExc _ _ h2 => rw [h2] at hv; cases hv
+    | cbStart _ _ _ h2 => rw [h2] at hv; cases hv
+    | cbRetry _ _ _ _ _ h2 => rw [h2] at hv; cases hv
+    | cbOk _ _ _ h2 => rw [h2] at hv; cases hv
+    | cbFail _ _ _ h2 => rw [h2] at hv; cases hv
+    | cbSave _ _ _ h3 => intro hsol; rw [h3 hsol, hv]
     | doneOk _ _ h3 => intro hsol; rw [h3 hsol, hv]
     | doneExcSaved _ _ _ h3 => intro hsol; rw [h3 hsol, hv]
   · rw [(hfresh p hp).2] at hv; cases hv
@@ -1207,6 +1517,33 @@ theorem quiet_markProcessed {s : St} (h : Quiet s) (n : Node) : Quiet (s.markPro
   · rfl
   · exact h.procHid m
 
+/-- `_execute_node` after `on_node_start` returned: the arguments, the first attempt -/
+theorem node_begin_plain {P : Program} {d : DagRef} (hp : PlainP P d) {s s1 : St} {L : List Node} {i : Nat} {c : Ctx}
+    {tk : Task} (x : NodeStepCtx P d val s s1 L i c tk) (hr0 : s.res (L[i]'x.hi) = none) (obs : List Obs) (inv : Nat)
+    (hinv0 : inv = 0) (h3 : ∀ p ∈ P.g.preds (L[i]'x.hi), (s.res p).isSome = true) :
+    PInv P d val (nodeBegin c s1 obs d (L[i]'x.hi) false [] inv).1 := by
+  simp only [nodeBegin]
+  have hres1 : ∀ p v, s1.res p = some v → v.isRecur = false ∧ v.isExc = false := by
+    intro p v hv; rw [x.res1] at hv; exact x.inv.noRecRes p v hv
+  obtain ⟨kw, hkw⟩ := nodeKwargs_plain hp s1 x.quiet1 hres1 (L[i]'x.hi)
+  rw [x.cP, hkw]
+  refine node_attempt_plain hp x hr0 _ 1 kw _ ?_
+  intro hsol
+  -- every source has a result that agrees with the solution
+  have hall : ∀ p ∈ P.g.preds (L[i]'x.hi), ∃ v, s1.res p = some v ∧ val p = some v ∧ v.isExc = false := by
+    intro p hpp
+    have := h3 p hpp
+    cases hr : s.res p with
+    | none => rw [hr] at this; simp at this
+    | some v => exact ⟨v, by rw [x.res1]; exact hr, agree_of_nodes x.nodes x.fresh p v hr hsol, (x.inv.noRecRes p v hr).2⟩
+  have hkw' := nodeKwargs_eq_kwFrom hp s1 x.quiet1 (L[i]'x.hi) hall
+  rw [hkw] at hkw'
+  refine ⟨by injection hkw', ?_, hinv0, Nat.le_refl 1, Retry.attemptsEff_pos _, fun j h1 h2 => by omega⟩
+  rw [List.all_eq_true]
+  intro p hpp
+  obtain ⟨v, _, hv, _⟩ := hall p hpp
+  simp [hv]
+
 /-- **every section of a node task preserves the invariant** -/
 theorem pinv_step_node {P : Program} {d : DagRef} (hp : PlainP P d) {s : St} (h : PInv P d val s)
     (L : List Node) (hlen : s.tasks.length = 2 + L.length)
@@ -1218,9 +1555,9 @@ theorem pinv_step_node {P : Program} {d : DagRef} (hp : PlainP P d) {s : St} (h 
   obtain ⟨tk, htk, hok⟩ := hnodes i hi
   have mk : ∀ (s1 : St) (tk0 : Task), s.tasks[2 + i]? = some tk0 → tk0.name = .node L[i] → tk0.mustCancel = false →
       s1.tasks = s.tasks → s1.res = s.res → (∀ m, m ≠ L[i] → s1.proc m = s.proc m) → s1.proc L[i] = true → Quiet s1 →
-      s.res L[i] = none → NodeStepCtx P d val s s1 L i c tk0 :=
-    fun s1 tk0 a1 a2 a3 a4 a5 a6 a7 a8 a9 =>
-      ⟨h, hlen, hmain, hnodes, hfresh, hi, hcP, hct, a1, ⟨a2, a3⟩, a4, a5, a6, a7, a8, a9⟩
+      NodeStepCtx P d val s s1 L i c tk0 :=
+    fun s1 tk0 a1 a2 a3 a4 a5 a6 a7 a8 =>
+      ⟨h, hlen, hmain, hnodes, hfresh, hi, hcP, hct, a1, ⟨a2, a3⟩, a4, a5, a6, a7, a8⟩
   unfold stepTask at hs
   rw [hct, htk] at hs
   cases hok with
@@ -1228,38 +1565,23 @@ theorem pinv_step_node {P : Program} {d : DagRef} (hp : PlainP P d) {s : St} (h 
     simp only [Bool.false_eq_true, if_false] at hs
     obtain rfl := Option.some.inj hs
     have hpe : s.procExists L[i] = false := by simp [St.procExists, h1]
-    have hcb : ∀ k n, c.P.cbYield k n = 0 := by rw [hcP]; exact hp.noCb
     have x := mk (s.markProcessed L[i]) _ htk rfl rfl rfl rfl
-      (by intro m hm; simp [St.markProcessed, upd, hm]) (by simp [St.markProcessed]) (quiet_markProcessed h.quiet _) h2
-    simp only [nodeStart, hpe, Bool.false_eq_true, if_false, cbCall]
-    cases hr1 : c.P.cbRaise .nstart L[i] with
-    | some e' =>
-      simp only []
-      exact node_cbraise_plain hp x _ e' ⟨_, _, by rw [← hcP]; exact hr1⟩
-    | none =>
-    simp only [hcb, cbThen, nodeBegin]
-    obtain ⟨kw, hkw⟩ := nodeKwargs_plain hp (s.markProcessed L[i]) (quiet_markProcessed h.quiet _) (fun p v hv => h.noRecRes p v hv) L[i]
-    rw [hcP, hkw]
-    refine node_attempt_plain hp x _ 1 kw _ ?_
-    intro hsol
-    -- every source has a result that agrees with the solution
-    have hall : ∀ p ∈ P.g.preds L[i], ∃ v, (s.markProcessed L[i]).res p = some v ∧ val p = some v ∧ v.isExc = false := by
-      intro p hpp
-      have := h3 p hpp
-      cases hr : s.res p with
-      | none => rw [hr] at this; simp at this
-      | some v => exact ⟨v, hr, agree_of_nodes hnodes hfresh p v hr hsol, (h.noRecRes p v hr).2⟩
-    have hkw' := nodeKwargs_eq_kwFrom hp (s.markProcessed L[i]) (quiet_markProcessed h.quiet _) L[i] hall
-    rw [hkw] at hkw'
+      (by intro m hm; simp [St.markProcessed, upd, hm]) (by simp [St.markProcessed]) (quiet_markProcessed h.quiet _)
     have hinv0 : s.invCount L[i] = 0 := by
       have := (hci L[i]).2
       simp only [St.core, h1, Bool.false_and, Bool.false_eq_true, false_or, h.quiet.hides] at this
       omega
-    refine ⟨by injection hkw', ?_, hinv0, Nat.le_refl 1, Retry.attemptsEff_pos _, fun j h1 h2 => by omega⟩
-    rw [List.all_eq_true]
-    intro p hpp
-    obtain ⟨v, _, hv, _⟩ := hall p hpp
-    simp [hv]
+    simp only [nodeStart, hpe, Bool.false_eq_true, if_false, cbCall]
+    cases hr1 : c.P.cbRaise .nstart L[i] with
+    | some e' =>
+      simp only []
+      exact node_cbraise_plain hp x h2 _ e' ⟨_, _, by rw [← hcP]; exact hr1⟩
+    | none =>
+      simp only []
+      exact cbThen_plain hp x _ (fun j => .cbStart j (s.invCount L[i])) _ _
+        (node_begin_plain hp x h2 _ _ hinv0 h3)
+        (fun j s'' a1 a2 a3 => .cbStart j _ a1 (by rw [a2]; exact h2)
+          (fun p hpp => a3 p (h3 p hpp)) hinv0)
   | inBody k kw inv h1 h2 => simp at hs
   | sleeping k kw inv dl h1 h2 => simp at hs
   | doneOk h1 => simp at hs
@@ -1268,13 +1590,43 @@ theorem pinv_step_node {P : Program} {d : DagRef} (hp : PlainP P d) {s : St} (h 
   | bodyDone k kw inv h1 h2 h3 =>
     simp only [Bool.false_eq_true, if_false] at hs
     obtain rfl := Option.some.inj hs
-    have x := mk s _ htk rfl rfl rfl rfl (fun _ _ => rfl) h1 h.quiet h2
-    exact node_afterBody_plain hp x [] k kw inv h3
+    have x := mk s _ htk rfl rfl rfl rfl (fun _ _ => rfl) h1 h.quiet
+    exact node_afterBody_plain hp x h2 [] k kw inv h3
   | slept k kw inv h1 h2 h3 =>
     simp only [Bool.false_eq_true, if_false] at hs
     obtain rfl := Option.some.inj hs
-    have x := mk s _ htk rfl rfl rfl rfl (fun _ _ => rfl) h1 h.quiet h2
-    exact node_attempt_plain hp x [] (k + 1) kw inv h3
+    have x := mk s _ htk rfl rfl rfl rfl (fun _ _ => rfl) h1 h.quiet
+    exact node_attempt_plain hp x h2 [] (k + 1) kw inv h3
+  | cbStart j inv h1 h2 h3 h4 =>
+    simp only [Bool.false_eq_true, if_false] at hs
+    obtain rfl := Option.some.inj hs
+    have x := mk s _ htk rfl rfl rfl rfl (fun _ _ => rfl) h1 h.quiet
+    exact cbThen_plain hp x _ (fun j => .cbStart j inv) _ _ (node_begin_plain hp x h2 _ _ h4 h3)
+      (fun j s'' a1 a2 a3 => .cbStart j _ a1 (by rw [a2]; exact h2) (fun p hpp => a3 p (h3 p hpp)) h4)
+  | cbRetry j k kw inv h1 h2 h3 =>
+    simp only [Bool.false_eq_true, if_false] at hs
+    obtain rfl := Option.some.inj hs
+    have x := mk s _ htk rfl rfl rfl rfl (fun _ _ => rfl) h1 h.quiet
+    exact cbThen_plain hp x _ (fun j => .cbRetry j k kw inv) _ _ (node_sleep_plain hp x h2 _ k kw inv h3)
+      (fun j s'' a1 a2 a3 => .cbRetry j k kw inv a1 (by rw [a2]; exact h2) h3)
+  | cbOk j v h1 h2 h3 h4 =>
+    simp only [Bool.false_eq_true, if_false] at hs
+    obtain rfl := Option.some.inj hs
+    have x := mk s _ htk rfl rfl rfl rfl (fun _ _ => rfl) h1 h.quiet
+    exact cbThen_plain hp x _ (fun j => .cbOk j v) _ _ (node_post_plain hp x h2 _ v h3 h4)
+      (fun j s'' a1 a2 a3 => .cbOk j v a1 (by rw [a2]; exact h2) h3 h4)
+  | cbFail j e h1 h2 h3 =>
+    simp only [Bool.false_eq_true, if_false] at hs
+    obtain rfl := Option.some.inj hs
+    have x := mk s _ htk rfl rfl rfl rfl (fun _ _ => rfl) h1 h.quiet
+    exact cbThen_plain hp x _ (fun j => .cbFail j e) _ _ (node_failCont_plain hp x h2 _ e h3)
+      (fun j s'' a1 a2 a3 => .cbFail j e a1 (by rw [a2]; exact h2) h3)
+  | cbSave j h1 h2 h3 =>
+    simp only [Bool.false_eq_true, if_false] at hs
+    obtain rfl := Option.some.inj hs
+    have x := mk s _ htk rfl rfl rfl rfl (fun _ _ => rfl) h1 h.quiet
+    exact cbThen_plain hp x _ (fun j => .cbSave j) _ _ (node_finish_plain hp x _ h2 h3)
+      (fun j s'' a1 a2 a3 => .cbSave j a1 (by rw [a2]; exact h2) (by rw [a2]; exact h3))
 
 end MLPE.Eng
 
@@ -1283,21 +1635,23 @@ open MLPE
 variable {val : Node → Option Val}
 
 theorem MainOK.frame {P : Program} {d : DagRef} {s s' : St} {L : List Node} {tk : Task} (h : MainOK P d s L tk)
-    (hp : s'.proc = s.proc) (hr : s'.res = s.res) : MainOK P d s' L tk := by
+    (hp : s'.proc = s.proc) (hr : s'.res = s.res) (hS : ∀ n, Settled s' n → Settled s n) : MainOK P d s' L tk := by
   cases h with
   | init h1 h2 => exact .init h1 (by rw [hp]; exact h2)
   | launching rest h1 => exact .launching rest h1
-  | waitNode m rest h1 h2 => exact .waitNode m rest h1 (by rw [← h2]; exact readyP_congr (fun p _ => by rw [hr]))
+  | waitNode m rest h1 h2 => exact .waitNode m rest h1 (fun hra => h2 (fun p hpm => hS p (hra p hpm)))
   | waitingDest h1 => exact .waitingDest h1
-  | waitDest h1 h2 => exact .waitDest h1 (by rw [hr]; exact h2)
+  | waitDest h1 h2 => exact .waitDest h1 (fun hst => h2 (hS _ hst))
   | done h1 h2 => exact .done h1 (by rw [hr]; exact h2)
 
 theorem CallerOK.frame {P : Program} {s s' : St} {tk : Task} (h : CallerOK P s tk)
-    (hl : s'.tasks.length = s.tasks.length) (he : NoErr s → NoErr s') (hr : s'.res = s.res) : CallerOK P s' tk := by
+    (hl : s'.tasks.length = s.tasks.length) (he : NoErr s → NoErr s') (hS : ∀ n, Settled s' n → Settled s n) :
+    CallerOK P s' tk := by
   cases h with
   | start mc h1 => exact .start mc (by rw [hl]; exact h1)
-  | waiting h1 h2 h3 => exact .waiting (by rw [hl]; exact h1) (he h2) (by rw [hr]; exact h3)
+  | waiting h1 h2 h3 => exact .waiting (by rw [hl]; exact h1) (he h2) (fun hst => h3 (hS _ hst))
   | woken mc h1 => exact .woken mc (by rw [hl]; exact h1)
+  | cbStart j mc h1 => exact .cbStart j mc (by rw [hl]; exact h1)
 
 /-- the task list is transformed pointwise by a function that leaves the caller and the main task alone and keeps
 every node task well-formed; nothing else changes -/
@@ -1306,7 +1660,9 @@ theorem pinv_map_tasks {P : Program} {d : DagRef} {s s' : St} (h : PInv P d val 
     (hq : Quiet s')
     (hC : ∀ tk, CallerOK P s tk → F tk = tk) (hM : ∀ L tk, MainOK P d s L tk → F tk = tk)
     (hN : ∀ n tk, NodeTaskOK P d val s n tk → NodeTaskOK P d val s n (F tk))
-    (hE : ∀ tk e, (F tk).st = .done (.exc e) → tk.st = .done (.exc e)) : PInv P d val s' := by
+    (hE : ∀ tk e, (F tk).st = .done (.exc e) → tk.st = .done (.exc e))
+    (hF : ∀ tk, (F tk).name = tk.name ∧ ((F tk).isDone = true → tk.isDone = true)) : PInv P d val s' := by
+  have hS : ∀ n, Settled s' n → Settled s n := settled_map F hres htasks hF
   have hlen : s'.tasks.length = s.tasks.length := by rw [htasks]; simp
   have hget : ∀ j : Nat, s'.tasks[j]? = (s.tasks[j]?).map F := by intro j; rw [htasks, List.getElem?_map]
   have hne : NoErr s → NoErr s' := by
@@ -1319,10 +1675,10 @@ theorem pinv_map_tasks {P : Program} {d : DagRef} {s s' : St} (h : PInv P d val 
     intro p v hv; rw [hres] at hv; exact h.noRecRes p v hv
   refine ⟨hq, hnr, ?_, ?_⟩
   · obtain ⟨ctk, hc0, hcok⟩ := h.caller
-    exact ⟨ctk, by rw [hget 0, hc0]; simp [hC ctk hcok], hcok.frame hlen hne hres⟩
+    exact ⟨ctk, by rw [hget 0, hc0]; simp [hC ctk hcok], hcok.frame hlen hne hS⟩
   · rcases h.rest with ⟨h1, h2⟩ | ⟨L, hl, ⟨mtk, hm1, hmok⟩, hnodes, hfresh⟩
     · exact Or.inl ⟨by rw [hlen]; exact h1, fun n => by rw [hproc, hres]; exact h2 n⟩
-    · refine Or.inr ⟨L, by rw [hlen]; exact hl, ⟨mtk, by rw [hget 1, hm1]; simp [hM L mtk hmok], hmok.frame hproc hres⟩, ?_, ?_⟩
+    · refine Or.inr ⟨L, by rw [hlen]; exact hl, ⟨mtk, by rw [hget 1, hm1]; simp [hM L mtk hmok], hmok.frame hproc hres hS⟩, ?_, ?_⟩
       · intro j hj
         obtain ⟨tk, htk, hok⟩ := hnodes j hj
         exact ⟨F tk, by rw [hget (2 + j), htk]; rfl, (hN _ tk hok).frame' (by rw [hproc]) hres⟩
@@ -1336,7 +1692,7 @@ theorem pinv_step_gate {P : Program} {d : DagRef} {s : St} (h : PInv P d val s) 
   · simp at hs
   · obtain rfl := Option.some.inj hs
     refine pinv_map_tasks (s' := { s with tasks := s.tasks.map (gateDone n inv att) }) h (gateDone n inv att)
-      rfl rfl rfl (h.quiet.of_eq rfl rfl rfl rfl rfl) ?_ ?_ ?_ ?_
+      rfl rfl rfl (h.quiet.of_eq rfl rfl rfl rfl rfl) ?_ ?_ ?_ ?_ ?_
     · intro tk hc; cases hc <;> rfl
     · intro L tk hm; cases hm <;> rfl
     · intro m tk hn
@@ -1353,6 +1709,11 @@ theorem pinv_step_gate {P : Program} {d : DagRef} {s : St} (h : PInv P d val s) 
       | doneOk h0 h1 h3 => exact .doneOk h0 h1 h3
       | doneExc e h0 h1 h3 => exact .doneExc e h0 h1 h3
       | doneExcSaved e h0 h1 h3 h4 => exact .doneExcSaved e h0 h1 h3 h4
+      | cbStart j inv' h1 h2 h3 h4 => exact .cbStart j inv' h1 h2 h3 h4
+      | cbRetry j k kw inv' h1 h2 h3 => exact .cbRetry j k kw inv' h1 h2 h3
+      | cbOk j v h1 h2 h3 h4 => exact .cbOk j v h1 h2 h3 h4
+      | cbFail j e h1 h2 h3 => exact .cbFail j e h1 h2 h3
+      | cbSave j h1 h2 h3 => exact .cbSave j h1 h2 h3
     · intro tk e he
       obtain ⟨fr, st, mc, nm⟩ := tk
       cases st with
@@ -1364,6 +1725,21 @@ theorem pinv_step_gate {P : Program} {d : DagRef} {s : St} (h : PInv P d val s) 
         | cond k => simp [gateDone] at he
         | event k => simp [gateDone] at he
         | sleep a b c dl => simp [gateDone] at he
+    · intro tk
+      obtain ⟨fr, st, mc, nm⟩ := tk
+      cases st with
+      | runnable rv => exact ⟨rfl, fun h => h⟩
+      | done r => exact ⟨rfl, fun h => h⟩
+      | blocked w =>
+        cases w with
+        | gate a b c o =>
+          simp only [gateDone]
+          split
+          · exact ⟨rfl, fun h => by simp [Task.isDone] at h⟩
+          · exact ⟨rfl, fun h => h⟩
+        | cond k => exact ⟨rfl, fun h => h⟩
+        | event k => exact ⟨rfl, fun h => h⟩
+        | sleep a b c dl => exact ⟨rfl, fun h => h⟩
 
 end MLPE.Eng
 
@@ -1399,13 +1775,17 @@ theorem noErr_setTask {s : St} (h : NoErr s) (t : Nat) (tk' : Task) (hne : ∀ e
 /-- closing the invariant again once the main task has been given its new frames / state -/
 theorem PInvX.close {P : Program} {d : DagRef} {s : St} {L : List Node} (x : PInvX P d val s L) (tk' : Task)
     (hne : ∀ e, tk'.st ≠ .done (.exc e)) (hm : MainOK P d s L tk') : PInv P d val (s.setTask 1 tk') := by
+  have hS : ∀ n, Settled (s.setTask 1 tk') n → Settled s n := by
+    intro n
+    apply settled_setTask_name
+    intro m; cases hm <;> simp
   have hget : ∀ j : Nat, j ≠ 1 → (s.setTask 1 tk').tasks[j]? = s.tasks[j]? := by
     intro j hj; simp [St.setTask, List.getElem?_set_ne (Ne.symm hj)]
   refine ⟨x.quiet.of_eq rfl rfl rfl rfl rfl, x.noRecRes, ?_, Or.inr ⟨L, by simp [x.len], ?_, ?_, x.fresh⟩⟩
   · obtain ⟨ctk, hc0, hcok⟩ := x.caller
     exact ⟨ctk, by rw [hget 0 (by omega)]; exact hc0,
-      hcok.frame (by simp) (fun h0 => noErr_setTask h0 1 tk' hne) rfl⟩
-  · refine ⟨tk', ?_, hm.frame rfl rfl⟩
+      hcok.frame (by simp) (fun h0 => noErr_setTask h0 1 tk' hne) hS⟩
+  · refine ⟨tk', ?_, hm.frame rfl rfl hS⟩
     simp only [St.setTask]
     rw [List.getElem?_set_self (by rw [x.len]; omega)]
   · intro i hi
@@ -1431,7 +1811,8 @@ theorem PInvX.spawnNode {P : Program} {d : DagRef} {s : St} {L : List Node} (x :
     refine ⟨ctk, by rw [hget 0 (by rw [x.len]; omega)]; exact hc0, ?_⟩
     cases hcok with
     | start mc h1 => rw [x.len] at h1; omega
-    | waiting h1 h2 h3 => exact .waiting (by simp [spawn]; omega) (hne h2) h3
+    | cbStart j mc h1 => rw [x.len] at h1; omega
+    | waiting h1 h2 h3 => exact .waiting (by simp [spawn]; omega) (hne h2) (fun hst => h3 (settled_spawn _ _ _ hst))
     | woken mc h1 => exact .woken mc (by simp [spawn]; omega)
   · obtain ⟨tk, h1, h2⟩ := x.mainTk
     exact ⟨tk, by rw [hget 1 (by rw [x.len]; omega)]; exact h1, h2⟩
@@ -1490,6 +1871,7 @@ theorem waitDest_plain {P : Program} {d : DagRef} (hp : PlainP P d) {s : St} {L 
     rw [this]
     refine x.close _ (by intro e; simp) (.waitDest ht ?_)
     simp only [St.exists, x.quiet.resHid, Bool.not_false, Bool.and_true] at hex
+    apply not_settled_of_res_none
     cases hr : s.res P.g.output <;> simp_all
 
 /-- `_run_dag`: the launch loop, from any point of the order -/
@@ -1530,7 +1912,7 @@ theorem launch_plain {P : Program} {d : DagRef} (hp : PlainP P d) (c : Ctx) (hcP
           = { frames := [.dagLaunch d (m :: rest)], st := .blocked (.cond (.node m)), name := .run } := by
         cases mtk; simp_all
       rw [this]
-      exact x.close _ (by intro e; simp) (.waitNode m rest ht (by simpa using hnr))
+      exact x.close _ (by intro e; simp) (.waitNode m rest ht (not_readyA_of_not_readyP (by simpa [readyP] using hnr)))
 
 end MLPE.Eng
 
@@ -1608,6 +1990,10 @@ variable {val : Node → Option Val}
 /-- replacing the caller's task entry (its own step, or a cancellation request) -/
 theorem pinv_replace_caller {P : Program} {d : DagRef} {s : St} (h : PInv P d val s) (ctk' : Task)
     (hc : CallerOK P (s.setTask 0 ctk') ctk') : PInv P d val (s.setTask 0 ctk') := by
+  have hS : ∀ n, Settled (s.setTask 0 ctk') n → Settled s n := by
+    intro n
+    apply settled_setTask_name
+    intro m; cases hc <;> simp
   have hget : ∀ j : Nat, j ≠ 0 → (s.setTask 0 ctk').tasks[j]? = s.tasks[j]? := by
     intro j hj; simp [St.setTask, List.getElem?_set_ne (Ne.symm hj)]
   obtain ⟨ctk, hc0, _⟩ := h.caller
@@ -1616,7 +2002,7 @@ theorem pinv_replace_caller {P : Program} {d : DagRef} {s : St} (h : PInv P d va
   · simp only [St.setTask]; rw [List.getElem?_set_self hlt]
   · rcases h.rest with ⟨h1, h2⟩ | ⟨L, hl, ⟨mtk, hm1, hmok⟩, hnodes, hfresh⟩
     · exact Or.inl ⟨by simp [h1], h2⟩
-    · refine Or.inr ⟨L, by simp [hl], ⟨mtk, by rw [hget 1 (by omega)]; exact hm1, hmok.frame rfl rfl⟩, ?_, hfresh⟩
+    · refine Or.inr ⟨L, by simp [hl], ⟨mtk, by rw [hget 1 (by omega)]; exact hm1, hmok.frame rfl rfl hS⟩, ?_, hfresh⟩
       intro i hi
       obtain ⟨tk, htk, hok⟩ := hnodes i hi
       exact ⟨tk, by rw [hget (2 + i) (by omega)]; exact htk, hok.frame' rfl rfl⟩
@@ -1680,25 +2066,163 @@ theorem taskError_is_node_failure {P : Program} {d : DagRef} {s : St} (h : PInv 
         | sleeping => simp at hst'
         | slept => simp at hst'
         | doneOk => simp at hst'
+        | cbStart => simp at hst'
+        | cbRetry => simp at hst'
+        | cbOk => simp at hst'
+        | cbFail => simp at hst'
+        | cbSave => simp at hst'
 
-/-- **every section of the caller's task preserves the invariant, or ends the run** -/
-theorem pinv_step_caller {P : Program} {d : DagRef} (hp : PlainP P d) {s : St} (h : PInv P d val s)
-    (c : Ctx) (hcP : c.P = P) (hct : c.t = 0) (out : Out) (hs : stepTask c s = some out) :
-    (∃ o, out.1.outcome = some o ∧ OutcomeOK P d val s o) ∨ PInv P d val out.1 := by
-  obtain ⟨ctk, hc0, hcok⟩ := h.caller
-  have hcb : ∀ k n, c.P.cbYield k n = 0 := by rw [hcP]; exact hp.noCb
+theorem getElem?_setTask_ne' (s : St) (t i : Nat) (tk : Task) (h : i ≠ t) :
+    (s.setTask t tk).tasks[i]? = s.tasks[i]? := by
+  simp [St.setTask, List.getElem?_set_ne (Ne.symm h)]
+
+theorem cancelTasks_other (s : St) (ts : List Nat) (t : Nat) (h : t ∉ ts) : (cancelTasks s ts).tasks[t]? = s.tasks[t]? := by
+  induction ts generalizing s with
+  | nil => rfl
+  | cons a ts ih =>
+    simp only [cancelTasks, List.foldl]
+    have h1 : t ≠ a := fun e => h (by simp [e])
+    have h2 : t ∉ ts := fun e => h (by simp [e])
+    have := ih (cancelTask s a) h2
+    simp only [cancelTasks] at this
+    rw [this, cancelTask_tasks]
+    cases s.tasks[a]? with
+    | none => rfl
+    | some tk0 => simp [List.getElem?_set_ne (Ne.symm h1)]
+
+theorem outcome_cancelTasks (s : St) (ts : List Nat) : (cancelTasks s ts).outcome = s.outcome := by
+  induction ts generalizing s with
+  | nil => rfl
+  | cons a ts ih =>
+    simp only [cancelTasks, List.foldl]
+    have := ih (cancelTask s a)
+    simp only [cancelTasks] at this
+    rw [this]
+    unfold cancelTask
+    split
+    · rfl
+    · split <;> rfl
+
+theorem frames_cancelTasks (ts : List Nat) : ∀ (s : St) (i : Nat),
+    ((cancelTasks s ts).tasks[i]?).map Task.frames = (s.tasks[i]?).map Task.frames := by
+  induction ts with
+  | nil => intro s i; rfl
+  | cons a ts ih =>
+    intro s i
+    simp only [cancelTasks, List.foldl]
+    have := ih (cancelTask s a) i
+    simp only [cancelTasks] at this
+    rw [this, cancelTask_tasks]
+    cases ha : s.tasks[a]? with
+    | none => rfl
+    | some tk0 =>
+      simp only []
+      by_cases hia : i = a
+      · subst hia
+        rw [List.getElem?_set_self (getElem?_lt ha), ha]
+        simp only [Option.map_some, cancelled]
+        cases tk0.st <;> rfl
+      · rw [List.getElem?_set_ne (Ne.symm hia)]
+
+/-- `chart.run` wraps the outcome and calls `on_pipeline_complete`: it returns (the outcome, or the collaborator's
+exception), or the callback suspends -/
+theorem mgrComplete_result {P : Program} (c : Ctx) (hcP : c.P = P) (s0 : St) (obs : List Obs) (o : Outcome) :
+    (∃ o', (mgrComplete c s0 obs o).1.outcome = some o' ∧ (o' = o ∨ ∃ e, o' = .raised e ∧ CollabFails P e)) ∨
+    (∃ j, mgrComplete c s0 obs o = yieldNow c s0 (obs ++ [.pcomplete o]) [.mgrCbComplete j o]) := by
   have hret : ∀ s0 obs o, (mgrReturn c s0 obs o).1.outcome = some o := by
     intro s0 obs o; simp [mgrReturn, St.setOutcome]
-  have hcomp : ∀ s0 obs o, ∃ o', (mgrComplete c s0 obs o).1.outcome = some o' ∧
-      (o' = o ∨ ∃ e, o' = .raised e ∧ CollabFails P e) := by
-    intro s0 obs o
-    unfold mgrComplete
-    split
-    · exact ⟨_, hret _ _ _, Or.inl rfl⟩
-    · simp only [cbCall]
-      cases hr1 : c.P.cbRaise .pcomplete 0 with
-      | some e => exact ⟨_, hret _ _ _, Or.inr ⟨e, rfl, _, _, by rw [← hcP]; exact hr1⟩⟩
-      | none => simp only [hcb, cbThen]; exact ⟨_, hret _ _ _, Or.inl rfl⟩
+  unfold mgrComplete
+  split
+  · exact Or.inl ⟨_, hret _ _ _, Or.inl rfl⟩
+  · simp only [cbCall]
+    cases hr1 : c.P.cbRaise .pcomplete 0 with
+    | some e => exact Or.inl ⟨_, hret _ _ _, Or.inr ⟨e, rfl, _, _, by rw [← hcP]; exact hr1⟩⟩
+    | none =>
+      simp only []
+      cases hy : c.P.cbYield .pcomplete 0 with
+      | zero => exact Or.inl ⟨_, hret _ _ _, Or.inl rfl⟩
+      | succ j => exact Or.inr ⟨j, rfl⟩
+
+/-- **the finishing phase**: `manager.run` has left (its cleanup has cancel-marked every other task), the outcome `o` is
+decided and explained, and the caller is suspended in `on_pipeline_complete` -/
+structure Fin (P : Program) (d : DagRef) (val : Node → Option Val) (o : Outcome) (s : St) : Prop where
+  ok     : ∀ s0, OutcomeOK P d val s0 o
+  caller : ∃ (j : Nat) (mc : Bool), s.tasks[0]? = some
+             { frames := [.mgrCbComplete j o], st := .runnable .go, mustCancel := mc, name := .caller }
+  others : ∀ (i : Nat) (tk : Task), i ≠ 0 → s.tasks[i]? = some tk → tk.marked = true ∧ isCallerFrames tk.frames = false
+  pend   : s.outcome = none
+
+/-- what a step from a state of a pending plain run leads to -/
+inductive StepResult (P : Program) (d : DagRef) (val : Node → Option Val) (s : St) (out : Out) : Prop
+  | returned (o : Outcome) : out.1.outcome = some o → OutcomeOK P d val s o → StepResult P d val s out
+  | running : PInv P d val out.1 → StepResult P d val s out
+  | finishing (o : Outcome) : Fin P d val o out.1 → StepResult P d val s out
+
+/-- `chart.run` after `on_pipeline_start` returned, when only the caller's task exists -/
+theorem mgrBegin_plain {P : Program} {d : DagRef} (hp : PlainP P d) {s : St} (h : PInv P d val s)
+    (c : Ctx) (hcP : c.P = P) (hct : c.t = 0) (ctk : Task) (hl1 : s.tasks = [ctk]) (hnm : ctk.name = .caller)
+    (hmc : ctk.mustCancel = false) (obs : List Obs) : PInv P d val (mgrBegin c s obs).1 := by
+  have hfr : ∀ n, s.proc n = false ∧ s.res n = none := by
+    rcases h.rest with ⟨_, h2⟩ | ⟨L, hl, _⟩
+    · exact h2
+    · rw [hl1] at hl; simp at hl; omega
+  have hmainref := hp.main s h.quiet.opened
+  have hne0 : (taskErrors (spawn s [.dagInit d] .run).1).isEmpty = true := by
+    obtain ⟨ctk', hc0, hcok⟩ := h.caller
+    rw [hl1] at hc0; simp at hc0; subst hc0
+    simp only [taskErrors, spawn, hl1]
+    cases hcok <;> simp
+  have hex0 : (spawn s [.dagInit d] .run).1.exists P.g.output = false := by
+    simp [St.exists, spawn, (hfr _).2]
+  simp only [mgrBegin, hcP, hp.pools, Bool.not_true, Bool.false_eq_true, if_false, hmainref]
+  simp only [mgrCheck, hne0, hcP, hex0, Bool.not_true, Bool.or_false, Bool.false_eq_true, if_false, block, hct]
+  simp only [spawn, hl1, List.cons_append, List.nil_append, List.getElem?_cons_zero, St.setTask, List.set_cons_zero]
+  have hrec : ({ ctk with frames := [.mgrWait], st := .blocked (.cond .run) } : Task) =
+      { frames := [.mgrWait], st := .blocked (.cond .run), name := .caller } := by
+    cases ctk; simp_all
+  rw [hrec]
+  refine ⟨h.quiet.of_eq rfl rfl rfl rfl rfl, h.noRecRes,
+    ⟨_, rfl, .waiting (by simp) ?_ (not_settled_of_res_none (hfr _).2)⟩,
+    Or.inr ⟨[], by simp, ⟨_, rfl, .init rfl (fun n => (hfr n).1)⟩, by intro i hi; simp at hi, fun n _ => hfr n⟩⟩
+  intro j tk e hj
+  match j, hj with
+  | 0, hj => simp at hj; subst hj; simp
+  | 1, hj => simp at hj; subst hj; simp
+  | j + 2, hj => simp at hj
+
+/-- `on_pipeline_start` (which may suspend) and then `mgrBegin` -/
+theorem mgrCbStart_plain {P : Program} {d : DagRef} (hp : PlainP P d) {s : St} (h : PInv P d val s)
+    (c : Ctx) (hcP : c.P = P) (hct : c.t = 0) (ctk : Task) (hl1 : s.tasks = [ctk]) (hnm : ctk.name = .caller)
+    (hmc : ctk.mustCancel = false) (obs : List Obs) (m : Nat) :
+    PInv P d val (cbThen c s obs (fun j => [.mgrCbStart j]) m (fun s obs => mgrBegin c s obs)).1 := by
+  cases m with
+  | zero => exact mgrBegin_plain hp h c hcP hct ctk hl1 hnm hmc obs
+  | succ j =>
+    simp only [cbThen]
+    rw [yield_tasks c s _ _ ctk (by rw [hct, hl1]; rfl), hct]
+    have hrec : ({ ctk with frames := [.mgrCbStart j], st := .runnable .go } : Task) =
+        { frames := [.mgrCbStart j], st := .runnable .go, mustCancel := false, name := .caller } := by
+      cases ctk; simp_all
+    rw [hrec]
+    apply pinv_replace_caller h
+    exact .cbStart j false (by simp [hl1])
+
+theorem tasks_singleton {s : St} {ctk : Task} (h1 : s.tasks.length = 1) (hc0 : s.tasks[0]? = some ctk) :
+    s.tasks = [ctk] := by
+  cases hts : s.tasks with
+  | nil => rw [hts] at h1; simp at h1
+  | cons a l =>
+    rw [hts] at h1 hc0
+    simp at h1 hc0
+    rw [h1, hc0]
+
+/-- **every section of the caller's task preserves the invariant, ends the run, or starts the finishing phase** -/
+theorem pinv_step_caller {P : Program} {d : DagRef} (hp : PlainP P d) {s : St} (h : PInv P d val s)
+    (c : Ctx) (hcP : c.P = P) (hct : c.t = 0) (out : Out) (hs : stepTask c s = some out) :
+    StepResult P d val s out := by
+  obtain ⟨ctk, hc0, hcok⟩ := h.caller
+  have hret : ∀ s0 obs o, (mgrReturn c s0 obs o).1.outcome = some o := by
+    intro s0 obs o; simp [mgrReturn, St.setOutcome]
   unfold stepTask at hs
   rw [hct, hc0] at hs
   cases hcok with
@@ -1708,65 +2232,44 @@ theorem pinv_step_caller {P : Program} {d : DagRef} (hp : PlainP P d) {s : St} (
     | true =>
       simp only [if_true] at hs
       obtain rfl := Option.some.inj hs
-      left
-      exact ⟨.cancelled, by simp [deliverCancel, St.setOutcome], _, hc0, rfl⟩
+      exact .returned .cancelled (by simp [deliverCancel, St.setOutcome]) ⟨_, hc0, rfl⟩
     | false =>
       simp only [Bool.false_eq_true, if_false] at hs
       obtain rfl := Option.some.inj hs
-      -- the task list is exactly [caller]
-      have hl1 : s.tasks = [{ frames := [.mgrStart], st := .runnable .go, mustCancel := false, name := .caller }] := by
-        cases hts : s.tasks with
-        | nil => rw [hts] at h1; simp at h1
-        | cons a l =>
-          rw [hts] at h1 hc0
-          simp at h1 hc0
-          rw [h1, hc0]
-      have hfr : ∀ n, s.proc n = false ∧ s.res n = none := by
-        rcases h.rest with ⟨_, h2⟩ | ⟨L, hl, _⟩
-        · exact h2
-        · omega
-      have hmainref := hp.main s h.quiet.opened
-      have hne0 : (taskErrors (spawn s [.dagInit d] .run).1).isEmpty = true := by
-        simp [taskErrors, spawn, hl1]
-      have hex0 : (spawn s [.dagInit d] .run).1.exists c.P.g.output = false := by
-        simp [St.exists, spawn, (hfr _).2]
+      have hl1 := tasks_singleton h1 hc0
       simp only [mgrStart, cbCall]
       cases hr1 : c.P.cbRaise .pstart 0 with
       | some e =>
-        left
-        exact ⟨.raised e, hret _ _ _, Or.inl ⟨_, _, by rw [← hcP]; exact hr1⟩⟩
+        exact .returned (.raised e) (hret _ _ _) (Or.inl ⟨_, _, by rw [← hcP]; exact hr1⟩)
       | none =>
-      right
-      simp only [hcb, hp.noCb, cbThen, mgrBegin, hcP, hp.pools, Bool.not_true, Bool.false_eq_true, if_false, hmainref]
-      rw [hcP] at hex0
-      simp only [mgrCheck, hne0, hcP, hex0, Bool.not_true, Bool.or_false, Bool.false_eq_true, if_false, block, hct]
-      simp only [spawn, hl1, List.cons_append, List.nil_append, List.getElem?_cons_zero, St.setTask, List.set_cons_zero]
-      refine ⟨h.quiet.of_eq rfl rfl rfl rfl rfl, h.noRecRes, ⟨_, rfl, .waiting (by simp) ?_ (hfr _).2⟩,
-        Or.inr ⟨[], by simp, ⟨_, rfl, .init rfl (fun n => (hfr n).1)⟩, by intro i hi; simp at hi, fun n _ => hfr n⟩⟩
-      intro j tk e hj
-      match j, hj with
-      | 0, hj => simp at hj; subst hj; simp
-      | 1, hj => simp at hj; subst hj; simp
-      | j + 2, hj => simp at hj
+        exact .running (mgrCbStart_plain hp h c hcP hct _ hl1 rfl rfl _ _)
+  | cbStart j mc h1 =>
+    cases mc with
+    | true =>
+      simp only [if_true] at hs
+      obtain rfl := Option.some.inj hs
+      exact .returned .cancelled (by simp [deliverCancel, St.setOutcome]) ⟨_, hc0, rfl⟩
+    | false =>
+      simp only [Bool.false_eq_true, if_false] at hs
+      obtain rfl := Option.some.inj hs
+      have hl1 := tasks_singleton h1 hc0
+      exact .running (mgrCbStart_plain hp h c hcP hct _ hl1 rfl rfl _ _)
   | woken mc h1 =>
     cases mc with
     | true =>
       simp only [if_true] at hs
       obtain rfl := Option.some.inj hs
-      left
-      exact ⟨.cancelled, by simp [deliverCancel, St.setOutcome], _, hc0, rfl⟩
+      exact .returned .cancelled (by simp [deliverCancel, St.setOutcome]) ⟨_, hc0, rfl⟩
     | false =>
       simp only [Bool.false_eq_true, if_false] at hs
       obtain rfl := Option.some.inj hs
       simp only [mgrCheck]
       split
       · next hfin =>
-        left
         simp only [mgrFinish]
-        have main : OutcomeOK P d val s
-            (match (taskErrors s)[c.pick % max (taskErrors s).length 1]? with
-              | some e => if e.isException = true then Outcome.error e else Outcome.raised e
-              | none => Outcome.value (s.getHid c.P.g.output)) := by
+        have main : ∀ s0, OutcomeOK P d val s0 (finishOutcome c s) := by
+          unfold finishOutcome
+          intro s0
           cases hidx : (taskErrors s)[c.pick % max (taskErrors s).length 1]? with
           | some e =>
             have hmem : e ∈ taskErrors s := List.mem_of_getElem? hidx
@@ -1798,16 +2301,55 @@ theorem pinv_step_caller {P : Program} {d : DagRef} (hp : PlainP P d) {s : St} (
               rcases h.rest with ⟨_, h2⟩ | ⟨L, hl, _, hnodes, hfresh⟩
               · rw [(h2 _).2] at hr; cases hr
               · exact agree_of_nodes hnodes hfresh _ v hr
-        obtain ⟨o', ho', hoo⟩ := hcomp (cancelTasks s (liveTasks s c.t)) []
-          (match (taskErrors s)[c.pick % max (taskErrors s).length 1]? with
-            | some e => if e.isException = true then Outcome.error e else Outcome.raised e
-            | none => Outcome.value (s.getHid c.P.g.output))
-        refine ⟨o', ho', ?_⟩
-        rcases hoo with hoo | ⟨e, hoo, hce⟩
-        · rw [hoo]; exact main
-        · rw [hoo]; exact Or.inl hce
+        rcases mgrComplete_result (P := P) c hcP (cancelTasks s (liveTasks s c.t)) [] (finishOutcome c s)
+          with ⟨o', ho', hoo⟩ | ⟨j, hj⟩
+        · rcases hoo with hoo | ⟨e, hoo, hce⟩
+          · exact .returned o' ho' (by rw [hoo]; exact main s)
+          · exact .returned o' ho' (by rw [hoo]; exact Or.inl hce)
+        · -- `on_pipeline_complete` suspends: the finishing phase
+          rw [hj]
+          have hcur : (cancelTasks s (liveTasks s c.t)).tasks[c.t]? =
+              some { frames := [.mgrWait], st := .runnable .go, mustCancel := false, name := .caller } := by
+            rw [cancelTasks_other _ _ _ (by simp [liveTasks]), hct]; exact hc0
+          refine .finishing (finishOutcome c s) ?_
+          rw [yield_tasks c _ _ _ _ hcur]
+          simp only [hct]
+          refine ⟨main, ⟨j, false, ?_⟩, ?_, ?_⟩
+          · simp only [St.setTask]
+            rw [List.getElem?_set_self (by simp; exact getElem?_lt hc0)]
+          · intro i tk hi0 hi
+            rw [getElem?_setTask_ne' _ _ _ _ hi0] at hi
+            have hlt : i < s.tasks.length := by
+              have := getElem?_lt hi; simpa using this
+            obtain ⟨tk', h1', h2'⟩ := marked_cancelTasks (liveTasks s 0) s i s.tasks[i] (by simp [hlt])
+              (Or.inl (mem_liveTasks s 0 i hlt hi0))
+            rw [hi] at h1'; cases h1'
+            refine ⟨h2', ?_⟩
+            -- cancellation does not change frames; the frames of the other tasks are not `chart.run`'s
+            have hfr := frames_cancelTasks (liveTasks s 0) s i
+            rw [hi] at hfr
+            have hget0 : s.tasks[i]? = some s.tasks[i] := by simp [hlt]
+            rw [hget0] at hfr
+            simp only [Option.map_some, Option.some.injEq] at hfr
+            rw [hfr]
+            rcases h.rest with ⟨hl1, _⟩ | ⟨L, hl, ⟨mtk, hm1, hmok⟩, hnodes, _⟩
+            · omega
+            · by_cases hi1 : i = 1
+              · subst hi1
+                have : s.tasks[1] = mtk := by
+                  rw [hm1] at hget0; exact (Option.some.inj hget0).symm
+                rw [this]
+                cases hmok <;> rfl
+              · obtain ⟨i', rfl⟩ : ∃ i', i = 2 + i' := ⟨i - 2, by omega⟩
+                obtain ⟨tk1, htk1, hok1⟩ := hnodes i' (by omega)
+                have : s.tasks[2 + i'] = tk1 := by
+                  rw [htk1] at hget0; exact (Option.some.inj hget0).symm
+                rw [this]
+                cases hok1 <;> rfl
+          · simp only [St.setTask]
+            rw [outcome_cancelTasks]; exact h.quiet.pend
       · next hcond =>
-        right
+        refine .running ?_
         simp only [Bool.or_eq_true, Bool.not_eq_true', not_or, Bool.not_eq_true] at hcond
         have he : (taskErrors s).isEmpty = true := by
           cases hh : (taskErrors s).isEmpty <;> simp_all
@@ -1818,7 +2360,10 @@ theorem pinv_step_caller {P : Program} {d : DagRef} (hp : PlainP P d) {s : St} (
         · have := hcond.2
           rw [hcP] at this
           simp only [St.exists, h.quiet.resHid, Bool.not_false, Bool.and_true] at this
-          cases hr : s.res P.g.output <;> simp_all [St.setTask]
+          intro hst
+          have hst' := settled_setTask_name 0 _ (by intro m; simp) _ hst
+          have := hst'.1
+          cases hr : s.res P.g.output <;> simp_all
 
 end MLPE.Eng
 
@@ -1855,8 +2400,9 @@ theorem pinv_step_timer {P : Program} {d : DagRef} (hp : PlainP P d) {s : St} (h
             obtain rfl := Option.some.inj hs
             have x : NodeStepCtx P d val s s L i { P := P, t := 2 + i, ord := [], pick := 0 } _ :=
               ⟨h, hl, ⟨mtk, hm1, hmok⟩, hnodes, hfresh, hi, rfl, rfl, htk0, ⟨rfl, rfl⟩, rfl, rfl, fun _ _ => rfl, h1,
-               h.quiet, h2⟩
-            exact node_step_suspend hp x _ _ _ rfl (by intro e; simp) (fun s'' a b => .slept k kw inv a b h3)
+               h.quiet⟩
+            exact node_step_suspend hp x _ _ _ rfl (by intro e; simp)
+              (fun s'' a b _ => .slept k kw inv a (by rw [b]; exact h2) h3)
           | fresh h1 h2 => simp at hs
           | inBody k kw inv h1 h2 => simp at hs
           | bodyDone k kw inv h1 h2 => simp at hs
@@ -1864,6 +2410,11 @@ theorem pinv_step_timer {P : Program} {d : DagRef} (hp : PlainP P d) {s : St} (h
           | doneOk h1 => simp at hs
           | doneExc e h1 => simp at hs
           | doneExcSaved e h1 => simp at hs
+          | cbStart => simp at hs
+          | cbRetry => simp at hs
+          | cbOk => simp at hs
+          | cbFail => simp at hs
+          | cbSave => simp at hs
 
 /-- the caller's task is cancelled (at any point) -/
 theorem pinv_step_cancel {P : Program} {d : DagRef} {s : St} (h : PInv P d val s) (out : Out)
@@ -1884,25 +2435,26 @@ theorem pinv_step_cancel {P : Program} {d : DagRef} {s : St} (h : PInv P d val s
   | start mc h1 => exact .start true (by simpa using h1)
   | waiting h1 h2 h3 => exact .woken true (by simpa using h1)
   | woken mc h1 => exact .woken true (by simpa using h1)
+  | cbStart j mc h1 => exact .cbStart j true (by simpa using h1)
 
 /-- the launch order the oracle supplies is accepted by the model whenever a `_run_dag` starts -/
 def OracleOK (P : Program) (s : St) : Choice → Prop
   | .run t ord _ => ∀ tk d', s.tasks[t]? = some tk → tk.frames = [.dagInit d'] → validOrder P s d' ord = true
   | _ => True
 
-/-- **one step preserves the invariant of plain runs, or the caller leaves** -/
+/-- **one step from a state of a pending plain run**: the invariant is preserved, or the caller leaves with an
+explained outcome, or the finishing phase starts -/
 theorem pinv_step {P : Program} {d : DagRef} (hp : PlainP P d) {s : St} (h : PInv P d val s) (ch : Choice) (out : Out)
-    (hs : step P s ch = some out) (ho : OracleOK P s ch) (hci : CoreInv s.core) :
-    (∃ o, out.1.outcome = some o ∧ OutcomeOK P d val s o) ∨ PInv P d val out.1 := by
+    (hs : step P s ch = some out) (ho : OracleOK P s ch) (hci : CoreInv s.core) : StepResult P d val s out := by
   cases ch with
-  | gate n inv att => exact Or.inr (pinv_step_gate h n inv att out hs)
-  | timer t => exact Or.inr (pinv_step_timer hp h t out hs)
-  | cancelCaller => exact Or.inr (pinv_step_cancel h out hs)
+  | gate n inv att => exact .running (pinv_step_gate h n inv att out hs)
+  | timer t => exact .running (pinv_step_timer hp h t out hs)
+  | cancelCaller => exact .running (pinv_step_cancel h out hs)
   | run t ord pick =>
     simp only [step] at hs
     by_cases ht0 : t = 0
     · exact pinv_step_caller hp h _ rfl ht0 out hs
-    · right
+    · refine .running ?_
       rcases h.rest with ⟨h1, _⟩ | ⟨L, hl, ⟨mtk, hm1, hmok⟩, hnodes, hfresh⟩
       · -- only the caller exists
         unfold stepTask at hs
@@ -1923,37 +2475,210 @@ theorem pinv_init {P : Program} {d : DagRef} : PInv P d val init := by
   refine ⟨⟨fun _ => rfl, fun _ => rfl, fun _ => rfl, fun _ => rfl, fun _ => rfl, fun _ => rfl, rfl⟩, fun p v hv => by simp [init] at hv,
     ⟨_, rfl, .start false rfl⟩, Or.inl ⟨rfl, fun _ => ⟨rfl, rfl⟩⟩⟩
 
-/-- executions in which every launch order handed to the model is valid (the lock-step check verifies this of
-every order the real `nx.topological_sort` produced) -/
-inductive ReachV (P : Program) : St → Prop
-  | init : ReachV P init
-  | step {s s' : St} {c : Choice} {obs : List Obs} :
-      ReachV P s → OracleOK P s c → step P s c = some (s', obs) → ReachV P s'
-
-theorem ReachV.reach {P : Program} {s : St} (h : ReachV P s) : Reach P s := by
-  induction h with
-  | init => exact .init
-  | step _ _ hs ih => exact .step ih hs
-
-/-- **the invariant holds in every reachable state of a plain run in which the caller has not left** — as long as
-no earlier state had an outcome either (the outcome is only ever set once, by the caller's last section) -/
-theorem pinv_reach {P : Program} {d : DagRef} (hp : PlainP P d) {s : St} (h : ReachV P s) :
-    PInv P d val s ∨ ∃ s0, ReachV P s0 ∧ s0.outcome ≠ none := by
-  induction h with
-  | init => exact Or.inl pinv_init
-  | @step s s' c obs hr ho hs ih =>
-    rcases ih with ih | ⟨s0, h0, h1⟩
-    · rcases pinv_step hp ih c (s', obs) hs ho (coreInv_reach hr.reach) with h2 | h2
-      · obtain ⟨o, ho1, _⟩ := h2
-        exact Or.inr ⟨s', .step hr ho hs, by simp at ho1; simp [ho1]⟩
-      · exact Or.inl h2
-    · exact Or.inr ⟨s0, h0, h1⟩
-
 end MLPE.Eng
 
 namespace MLPE.Eng
 open MLPE
 variable {val : Node → Option Val}
+
+/-! ### the finishing phase: the caller is suspended in `on_pipeline_complete`, everybody else is being cancelled -/
+
+theorem unwindFrames_outcome (P : Program) : ∀ (fs : List Frame) (s : St), (unwindFrames P s fs).outcome = s.outcome := by
+  intro fs
+  induction fs with
+  | nil => intro s; rfl
+  | cons f fs ih =>
+    intro s
+    cases f <;> simp only [unwindFrames, ih]
+    split
+    · rfl
+    · exact (nodeFinally_fields P s _ _ true).2.2.2.2.2.2.2
+
+/-- a runnable task is not touched when somebody else's frames are unwound (only blocked tasks are woken) -/
+theorem unwindFrames_runnable (P : Program) : ∀ (fs : List Frame) (s : St) (i : Nat) (tk : Task) (rv : Resume),
+    s.tasks[i]? = some tk → tk.st = .runnable rv → (unwindFrames P s fs).tasks[i]? = some tk := by
+  intro fs
+  induction fs with
+  | nil => intro s i tk rv h _; exact h
+  | cons f fs ih =>
+    intro s i tk rv h hst
+    cases f <;> simp only [unwindFrames] <;> try exact ih s i tk rv h hst
+    split
+    · exact ih s i tk rv h hst
+    · apply ih _ i tk rv _ hst
+      rw [tasks_nodeFinally, List.getElem?_map, h]
+      simp only [Option.map_some, Option.some.injEq]
+      obtain ⟨fr, st, mc, nm⟩ := tk
+      simp only at hst
+      subst hst
+      rfl
+
+/-- the frames of every task survive the unwinding of somebody's frames -/
+theorem unwindFrames_frames (P : Program) : ∀ (fs : List Frame) (s : St) (i : Nat),
+    ((unwindFrames P s fs).tasks[i]?).map Task.frames = (s.tasks[i]?).map Task.frames := by
+  intro fs
+  induction fs with
+  | nil => intro s i; rfl
+  | cons f fs ih =>
+    intro s i
+    cases f <;> simp only [unwindFrames] <;> try exact ih s i
+    split
+    · exact ih s i
+    · rw [ih, tasks_nodeFinally, List.getElem?_map]
+      cases s.tasks[i]? with
+      | none => rfl
+      | some tk => simp [(wakeSet_name _ _ tk).2.2]
+
+/-- **a step in the finishing phase**: the caller returns the decided outcome (or `CancelledError` if it was cancelled
+meanwhile), or the phase goes on — the other tasks only end -/
+theorem fin_step {P : Program} {d : DagRef} {o : Outcome} {s : St} (h : Fin P d val o s) (ch : Choice) (out : Out)
+    (hs : step P s ch = some out) :
+    (∃ o', out.1.outcome = some o' ∧ OutcomeOK P d val s o') ∨ Fin P d val o out.1 := by
+  obtain ⟨j, mc, hc0⟩ := h.caller
+  cases ch with
+  | gate n inv att =>
+    simp only [step] at hs
+    split at hs
+    · cases hs
+    · obtain rfl := Option.some.inj hs
+      right
+      refine ⟨h.ok, ⟨j, mc, ?_⟩, ?_, h.pend⟩
+      · simp only [List.getElem?_map, hc0, Option.map_some]; rfl
+      · intro i tk hi0 hi
+        simp only [List.getElem?_map] at hi
+        cases hs0 : s.tasks[i]? with
+        | none => simp [hs0] at hi
+        | some tk0 =>
+          simp only [hs0, Option.map_some, Option.some.injEq] at hi
+          subst hi
+          obtain ⟨a, b⟩ := h.others i tk0 hi0 hs0
+          obtain ⟨fr, st, mc', nm⟩ := tk0
+          cases st with
+          | runnable rv => exact ⟨a, b⟩
+          | done r => exact ⟨a, b⟩
+          | blocked w =>
+            cases w with
+            | gate a' b' c' o' =>
+              simp only [gateDone]
+              split
+              · exact ⟨by simpa [Task.marked, Task.isDone] using a, b⟩
+              · exact ⟨a, b⟩
+            | cond k => exact ⟨a, b⟩
+            | event k => exact ⟨a, b⟩
+            | sleep a' b' c' dl => exact ⟨a, b⟩
+  | timer t =>
+    simp only [step] at hs
+    split at hs
+    · next tk htk =>
+      split at hs
+      · next hst =>
+        obtain rfl := Option.some.inj hs
+        have ht0 : t ≠ 0 := by
+          intro e; subst e; rw [hc0] at htk; cases htk; simp at hst
+        right
+        refine ⟨h.ok, ⟨j, mc, by rw [getElem?_setTask_ne' _ _ _ _ (Ne.symm ht0)]; exact hc0⟩, ?_, h.pend⟩
+        intro i tk' hi0 hi
+        by_cases hit : i = t
+        · subst hit
+          simp only [St.setTask] at hi
+          rw [List.getElem?_set_self (getElem?_lt htk)] at hi
+          cases hi
+          obtain ⟨a, b⟩ := h.others i tk hi0 htk
+          exact ⟨by simpa [Task.marked, Task.isDone, hst] using a, b⟩
+        · rw [getElem?_setTask_ne' _ _ _ _ hit] at hi
+          exact h.others i tk' hi0 hi
+      · cases hs
+    · cases hs
+  | cancelCaller =>
+    simp only [step] at hs
+    obtain rfl := Option.some.inj hs
+    right
+    have hst : (cancelTask s 0) = s.setTask 0
+        { frames := [.mgrCbComplete j o], st := .runnable .go, mustCancel := true, name := .caller } := by
+      unfold cancelTask
+      rw [hc0]
+    rw [hst]
+    refine ⟨h.ok, ⟨j, true, ?_⟩, ?_, h.pend⟩
+    · simp only [St.setTask]; rw [List.getElem?_set_self (getElem?_lt hc0)]
+    · intro i tk hi0 hi
+      rw [getElem?_setTask_ne' _ _ _ _ hi0] at hi
+      exact h.others i tk hi0 hi
+  | run t ord pick =>
+    simp only [step] at hs
+    by_cases ht0 : t = 0
+    · -- the caller
+      subst ht0
+      unfold stepTask at hs
+      simp only [hc0] at hs
+      cases mc with
+      | true =>
+        simp only [if_true] at hs
+        obtain rfl := Option.some.inj hs
+        left
+        exact ⟨.cancelled, by simp [deliverCancel, St.setOutcome], _, hc0, rfl⟩
+      | false =>
+        simp only [Bool.false_eq_true, if_false] at hs
+        obtain rfl := Option.some.inj hs
+        cases j with
+        | zero =>
+          left
+          exact ⟨o, by simp [cbThen, mgrReturn, St.setOutcome], h.ok s⟩
+        | succ j' =>
+          right
+          simp only [cbThen]
+          rw [yield_tasks _ s _ _ _ hc0]
+          refine ⟨h.ok, ⟨j', false, ?_⟩, ?_, h.pend⟩
+          · simp only [St.setTask]; rw [List.getElem?_set_self (getElem?_lt hc0)]
+          · intro i tk hi0 hi
+            rw [getElem?_setTask_ne' _ _ _ _ hi0] at hi
+            exact h.others i tk hi0 hi
+    · -- somebody else: a pending cancellation is delivered
+      cases htk : s.tasks[t]? with
+      | none => unfold stepTask at hs; simp [htk] at hs
+      | some tk =>
+        obtain ⟨hm, hfr⟩ := h.others t tk ht0 htk
+        cases hst : tk.st with
+        | done r => unfold stepTask at hs; simp [htk, hst] at hs
+        | blocked w => unfold stepTask at hs; simp [htk, hst] at hs
+        | runnable rv =>
+          have hmc : tk.mustCancel = true := by
+            simpa [Task.marked, Task.isDone, hst] using hm
+          obtain ⟨h1, _, _⟩ := C13_cancelled_task_ends_silently { P := P, t := t, ord := ord, pick := pick } s tk rv
+            htk hst hmc hfr
+          rw [h1] at hs
+          obtain rfl := Option.some.inj hs
+          right
+          have hget0 : (unwindFrames P s tk.frames).tasks[0]? = some
+              { frames := [.mgrCbComplete j o], st := .runnable .go, mustCancel := mc, name := .caller } :=
+            unwindFrames_runnable P tk.frames s 0 _ .go hc0 rfl
+          refine ⟨h.ok, ⟨j, mc, ?_⟩, ?_, ?_⟩
+          · rw [others_endTask _ _ _ _ _ (by simp; exact fun e => ht0 e.symm)]; exact hget0
+          · intro i tk' hi0 hi
+            by_cases hit : i = t
+            · subst hit
+              unfold endTask at hi
+              split at hi
+              · next hnone =>
+                have : i < (unwindFrames P s tk.frames).tasks.length := by
+                  rw [len_unwindFrames]; exact getElem?_lt htk
+                simp [List.getElem?_eq_getElem this] at hnone
+              · simp only [St.setTask] at hi
+                rw [List.getElem?_set_self (by rw [len_unwindFrames]; exact getElem?_lt htk)] at hi
+                cases hi
+                exact ⟨by simp [Task.marked, Task.isDone], rfl⟩
+            · rw [others_endTask _ _ _ _ _ (by simpa using hit)] at hi
+              have hlt : i < s.tasks.length := by
+                have := getElem?_lt hi; rw [len_unwindFrames] at this; exact this
+              obtain ⟨a, b⟩ := h.others i s.tasks[i] hi0 (by simp [hlt])
+              have hm' := C13_marks_are_stable P s tk.frames i
+              have hf' := unwindFrames_frames P tk.frames s i
+              rw [hi] at hm' hf'
+              simp only [List.getElem?_eq_getElem hlt, Option.map_some, Option.some.injEq] at hm' hf'
+              exact ⟨by rw [hm']; exact a, by rw [hf']; exact b⟩
+          · have : (endTask { P := P, t := t, ord := ord, pick := pick } (unwindFrames P s tk.frames) [] .cancelled).1.outcome
+                = (unwindFrames P s tk.frames).outcome := by
+              unfold endTask; split <;> rfl
+            rw [this, unwindFrames_outcome]; exact h.pend
 
 /-- executions of a run that is still pending: every step starts in a state in which the caller has not left -/
 inductive Live (P : Program) : St → Prop
@@ -1966,15 +2691,34 @@ theorem Live.reach {P : Program} {s : St} (h : Live P s) : Reach P s := by
   | init => exact .init
   | step _ _ _ hs ih => exact .step ih hs
 
+/-- **every state of a pending plain run** satisfies the invariant, or is in the finishing phase (the outcome is decided
+and explained, the caller is suspended in `on_pipeline_complete`) -/
 theorem pinv_live {P : Program} {d : DagRef} (hp : PlainP P d) {s : St} (h : Live P s) (ho : s.outcome = none) :
-    PInv P d val s := by
+    PInv P d val s ∨ ∃ o, Fin P d val o s := by
   induction h with
-  | init => exact pinv_init
+  | init => exact Or.inl pinv_init
   | @step s s' c obs hr hso hor hs ih =>
-    rcases pinv_step hp (ih hso) c (s', obs) hs hor (coreInv_reach hr.reach) with h2 | h2
-    · obtain ⟨o, ho1, _⟩ := h2
-      rw [ho1] at ho; cases ho
-    · exact h2
+    rcases ih hso with ih | ⟨o, hf⟩
+    · cases pinv_step hp ih c (s', obs) hs hor (coreInv_reach hr.reach) with
+      | returned o ho1 _ => simp only at ho1; rw [ho1] at ho; cases ho
+      | running h2 => exact Or.inl h2
+      | finishing o h2 => exact Or.inr ⟨o, h2⟩
+    · rcases fin_step hf c (s', obs) hs with ⟨o', ho1, _⟩ | h2
+      · simp only at ho1; rw [ho1] at ho; cases ho
+      · exact Or.inr ⟨o, h2⟩
+
+/-- **the step that ends a pending plain run** yields an outcome explained by the solution -/
+theorem outcome_live {P : Program} {d : DagRef} (hp : PlainP P d) {s : St} (h : Live P s) (hpend : s.outcome = none)
+    (c : Choice) (hor : OracleOK P s c) (out : Out) (hs : step P s c = some out) (o : Outcome)
+    (ho : out.1.outcome = some o) : OutcomeOK P d val s o := by
+  rcases pinv_live (val := val) hp h hpend with hinv | ⟨o0, hf⟩
+  · cases pinv_step hp hinv c out hs hor (coreInv_reach h.reach) with
+    | returned o' ho1 hok => rw [ho] at ho1; cases ho1; exact hok
+    | running h2 => have := h2.quiet.pend; rw [ho] at this; cases this
+    | finishing o' h2 => have := h2.pend; rw [ho] at this; cases this
+  · rcases fin_step hf c out hs with ⟨o', ho1, hok⟩ | h2
+    · rw [ho] at ho1; cases ho1; exact hok
+    · have := h2.pend; rw [ho] at this; cases this
 
 end MLPE.Eng
 
@@ -1994,12 +2738,11 @@ theorem reducedRef_congr_opened (P : Program) (s : St) (h : ∀ n, s.opened n = 
 theorem plainP_of_check {P : Program} {d : DagRef} (hc : plainCheck P d = true)
     (hsw : ∀ n, P.g.isSwitch n = false) (hhd : ∀ n, P.g.isOneofHead n = false)
     (hr : ∀ n kw i k v, P.body n kw i k = .ret v → v.isRecur = false ∧ v.isExc = false)
-    (hrd : ∀ n kw, (P.dflt n kw).isRecur = false ∧ (P.dflt n kw).isExc = false) (hcb : ∀ k n, P.cbYield k n = 0)
-    : PlainP P d := by
+    (hrd : ∀ n kw, (P.dflt n kw).isRecur = false ∧ (P.dflt n kw).isExc = false) : PlainP P d := by
   unfold plainCheck at hc
   simp only [Bool.and_eq_true, decide_eq_true_eq, Bool.not_eq_true', List.all_eq_true, List.isEmpty_eq_false_iff] at hc
   obtain ⟨⟨⟨⟨⟨⟨⟨⟨⟨h1, h2⟩, h3⟩, h4⟩, h5⟩, h6⟩, h7⟩, h8⟩, h9⟩, h10⟩ := hc
-  exact { noSwitch := hsw, noHead := hhd, noRecur := hr, noRecurD := hrd, noCb := hcb, pools := h10,
+  exact { noSwitch := hsw, noHead := hhd, noRecur := hr, noRecurD := hrd, pools := h10,
           main := fun s hs => by rw [reducedRef_congr_opened P s hs]; exact h1,
           dest := h2, notRec := h3, notOneof := h4, predsIn := h5, outIn := h6, nodup := h7, gne := h8,
           noCase := fun e he => by have := h9 e he; simpa using this }
